@@ -8,14 +8,30 @@ import Isotp.Process
 
   The callees are abstract: `ProcessCallees M R msgPV` says, one field per callee, that the `Meths` entry computes the MODEL function seen
   through a representation relation `R : Env → State → Prop` ("`env` shows `s`").  What the text of `process` itself reads is explicit:
-  `self.rx_state` / `self.tx_state` and the enum constants (`Reads`), the emptiness of `self.tx_queue`, the locals (`Loc`).
+  `self.rx_state` / `self.tx_state` and the enum / logging constants (`Reads`), the emptiness of `self.tx_queue`, the locals (`Loc`, `Kept`).
+  The three effectful assignments are the statement-level procs of the dump: `"msg:=self.rxfn"`, `"rx_result:=self._process_rx"`,
+  `"tx_result:=self._process_tx"` (they bind the local AND change the environment).  A `CanMessage` object is the VALUE `msgPV m`
+  (never `None`): it is passed by value to `is_for_me`, `_process_rx`, `txfn`, and copied by `msg = tx_result.msg`.
 
-  Main results
-  * `tx_loop_agrees`    : the inner tx loop  = `State.txLoop`   (runs on which the model neither runs out of fuel nor raises);
-  * `tx_loop_raises`    : ... and when `_process_tx` raises, the loop propagates the exception (the model stops with `exc = some e`);
-  * `rx_loop_agrees`    : the inner rx loop  = `State.rxLoop`   (induction on the inbox; the two `break`s);
-  * `process_loop_agrees` / `process_agrees` : the outer loop / the whole function = `State.processLoop` / `State.process`;
-  * `process_raises`    : a run of the model that ends with `exc = some e` is a run of the source that raises `e`.
+  Main results (all: for every `M`, `R`, `msgPV` with `ProcessCallees M R msgPV`, every state, both flags)
+  * `tx_loop_agrees`      : the inner tx loop = `State.txLoop f`  (runs on which the model neither runs out of fuel nor raises); fuel `≥ f + 13`;
+  * `tx_loop_raises`      : ... and when `_process_tx` raises `e` (the model stops with `exc = some e`), the loop raises `e`;
+  * `rx_loop_agrees`      : the inner rx loop = `State.rxLoop`, by induction on the inbox (the two `break`s); fuel `≥ |inbox| + 22`;
+  * `outer_body`          : one pass through the body of the outer loop = `procStep` (= one unfolding of `State.processLoop`,
+                            `processLoop_succ`); fuel `≥ iterFuel = |inbox| + txFuel (state the tx loop starts from) + 30`;
+  * `process_loop_agrees` : the outer loop = `State.processLoop f`; fuel `≥ pyLoopFuel f ...` = 1 + Σ over the iterations of the model's run
+                            of `(iterFuel + 1)`;
+  * `process_agrees`      : `s.process doRx doTx = (s', st, false)`, `s'.exc = none`  ⟹  for every `n ≥ processPyFuel s doRx doTx`
+                            (`= pyLoopFuel s.processFuel ... + 8`): `run2 n M env Src.TransportLayerLogic_process = .ok (.ret (encodeStats st) env')`
+                            with `R env' s'`.  (Stated for every `n` above the bound directly; `exec2B_mono_le` is not needed.)
+  * `process_loop_raises`, `process_raises` : a run of the model that ends with `exc = some e` (from `exc = none`) is a run of the source
+                            that raises `e` (`Out.raised e.name _`): `process` has no handler, the exception propagates.
+  * `ProcInst.instM_callees` : the hypotheses are satisfiable from EVERY initial state (an instance of `ProcessCallees`), with two
+                            concrete runs (both loops and `start_with_tx` exercised; an `AttributeError` propagated).
+
+  No disagreement between the source and the model was found: the order (`start_with_tx` test; rx loop; `start_with_tx = False`;
+  `rate_limiter.update()`; tx loop), the three places where `run_process` is raised, the two `break`s of the rx loop (the time-driven one
+  only under `if msg is not None`) and the one of the tx loop are those of `State.processLoop` / `rxLoop` / `txLoop`.
 -/
 namespace Isotp.PyAgree
 open Isotp Isotp.Py
@@ -402,20 +418,28 @@ def logStateBlk : PBlock :=
   .cons (.ite (.or_ (.cmp .ne (.var "self.last_rx_state") (.var "self.rx_state")) (.cmp .ne (.var "self.last_tx_state") (.var "self.tx_state")))
     .nil .nil) .nil
 
+def outerTail8 : PBlock :=
+  .cons (.ite logTest logStateBlk .nil)
+  (.cons (.assign "self.last_tx_state" (.var "self.tx_state"))
+  (.cons (.assign "self.last_rx_state" (.var "self.rx_state"))
+  .nil))
+
+def outerTail5 : PBlock :=
+  .cons (.assign "start_with_tx" .ff)
+  (.cons (.expr (.call "self.rate_limiter.update" .nil))
+  (.cons (.ite (.var "do_tx") txPart .nil)
+  outerTail8))
+
+def outerTail4 : PBlock :=
+  .cons (.ite (.and_ (.var "do_rx") (.not_ (.var "start_with_tx"))) rxPart .nil) outerTail5
+
 /-- the body of the outer loop -/
 def outerBody : PBlock :=
   .cons (.assign "msg" .none)
   (.cons (.assign "run_process" .ff)
   (.cons (.assign "start_with_tx" startWithTxExpr)
   (.cons (.ite (.var "start_with_tx") (.cons (.assign "run_process" .tt) .nil) .nil)
-  (.cons (.ite (.and_ (.var "do_rx") (.not_ (.var "start_with_tx"))) rxPart .nil)
-  (.cons (.assign "start_with_tx" .ff)
-  (.cons (.expr (.call "self.rate_limiter.update" .nil))
-  (.cons (.ite (.var "do_tx") txPart .nil)
-  (.cons (.ite logTest logStateBlk .nil)
-  (.cons (.assign "self.last_tx_state" (.var "self.tx_state"))
-  (.cons (.assign "self.last_rx_state" (.var "self.rx_state"))
-  .nil))))))))))
+  outerTail4)))
 
 def retStats : PStmt :=
   .ret (.call "self.ProcessStats#received#received_processed#sent#frame_received"
@@ -440,6 +464,22 @@ variable {M : Meths} {R : Env → State → Prop} {msgPV : CanMsg → PV}
 theorem eval_loopCond (M : Meths) (env : Env) (mv : PV) (fl : Bool) (hm : env "msg" = some mv) (hf : env "first_loop" = some (pbool fl)) :
     eval M env loopCond = .ok (pbool ((mv != pnone) || fl)) := by
   cases h : (mv != pnone) <;> simp [loopCond, eval, hm, hf, h]
+
+theorem eval_cmp (M : Meths) (env : Env) (op : CmpOp) (a b : PExpr) (x y : PV) (ha : eval M env a = .ok x) (hb : eval M env b = .ok y) :
+    eval M env (.cmp op a b) = evalCmp op x y := by
+  simp [eval, ha, hb]
+
+theorem eval_and_true (M : Meths) (env : Env) (a b : PExpr) (x : PV) (ha : eval M env a = .ok x) (ht : truthy x = .ok true) :
+    eval M env (.and_ a b) = eval M env b := by
+  simp [eval, ha, ht]
+
+theorem eval_and_false (M : Meths) (env : Env) (a b : PExpr) (x : PV) (ha : eval M env a = .ok x) (ht : truthy x = .ok false) :
+    eval M env (.and_ a b) = .ok x := by
+  simp [eval, ha, ht]
+
+theorem eval_not (M : Meths) (env : Env) (a : PExpr) (b : Bool) (ha : eval M env a = .ok (pbool b)) :
+    eval M env (.not_ a) = .ok (pbool (!b)) := by
+  simp [eval, ha]
 
 theorem eval_isNotNone (M : Meths) (env : Env) (k : String) (v : PV) (h : env k = some v) :
     eval M env (.isNotNone (.var k)) = .ok (pbool (v != pnone)) := by
@@ -476,8 +516,8 @@ theorem tx_body (hM : ProcessCallees M R msgPV) (env : Env) (s s1 : State) (out 
     (doRx doTx run : Bool) (tmo : PV) (st : Stats)
     (hR : R env s) (hL : Loc env doRx doTx tmo run st) (hp : s.processTx = (s1, out, imm)) (hexc : s1.exc = none) :
     ∃ envF, (∀ n, 12 ≤ n → exec2B n M env txBody = .ok (if imm then .brk envF else .next envF)) ∧
-      R envF (match out with | some m => s1.emit (.tx s1.now m) | none => s1) ∧
-      Loc envF doRx doTx tmo (run || imm) { st with sent := match out with | some _ => st.sent + 1 | none => st.sent } ∧
+      R envF (match (generalizing := false) out with | some m => s1.emit (.tx s1.now m) | none => s1) ∧
+      Loc envF doRx doTx tmo (run || imm) { st with sent := match (generalizing := false) out with | some _ => st.sent + 1 | none => st.sent } ∧
       envF "msg" = some (optMsgPV msgPV out) ∧ envF "first_loop" = some (pbool false) := by
   have hR0 := hM.R_set env s "first_loop" (pbool false) (by decide) hR
   obtain ⟨e1, p1, r1, m1, i1, k1⟩ := hM.process_tx _ s hR0 (by rw [hp]; exact hexc)
@@ -542,9 +582,9 @@ theorem tx_body (hM : ProcessCallees M R msgPV) (env : Env) (s s1 : State) (out 
 theorem txLoop_succ (f : Nat) (s s1 : State) (n : Nat) (out : Option CanMsg) (imm : Bool) (hp : s.processTx = (s1, out, imm)) :
     State.txLoop (f + 1) s n =
       if s1.exc.isSome then (s1, n, false, false) else
-      if imm then ((match out with | some m => s1.emit (.tx s1.now m) | none => s1), (match out with | some _ => n + 1 | none => n), true, false)
+      if imm then ((match (generalizing := false) out with | some m => s1.emit (.tx s1.now m) | none => s1), (match (generalizing := false) out with | some _ => n + 1 | none => n), true, false)
       else if out.isSome then
-        State.txLoop f (match out with | some m => s1.emit (.tx s1.now m) | none => s1) (match out with | some _ => n + 1 | none => n)
+        State.txLoop f (match (generalizing := false) out with | some m => s1.emit (.tx s1.now m) | none => s1) (match (generalizing := false) out with | some _ => n + 1 | none => n)
       else (s1, n, false, false) := by
   simp only [State.txLoop, hp]
   cases out <;> simp
@@ -608,6 +648,1302 @@ theorem tx_loop_agrees (hM : ProcessCallees M R msgPV) : ∀ (f : Nat) (env : En
           simp only [Bool.false_eq_true, if_false]
           exact hrun k (by omega)
 
+/-! ## 4. the inner rx loop -/
+
+/-- facts about the model: the receive side touches neither the bus nor the exception flag -/
+theorem processRx_inbox_exc (s : State) (m : CanMsg) : (s.processRx m).1.inbox = s.inbox ∧ (s.processRx m).1.exc = s.exc := by
+  unfold State.processRx State.startReception
+  grind [State.deliver, State.stopReceiving, State.error, State.emit, State.requestFc, State.startRxCfTimer]
+
+theorem checkTimeoutsRx_inbox_exc (s : State) : s.checkTimeoutsRx.inbox = s.inbox ∧ s.checkTimeoutsRx.exc = s.exc := by
+  unfold State.checkTimeoutsRx
+  grind [State.stopReceiving, State.error, State.emit]
+
+/-- one iteration of the model's rx loop on a frame: (state, stats, the loop stops, `run_process` requested) -/
+def rxStep (doTx : Bool) (s : State) (st : Stats) (dt : Nat) (m : CanMsg) (rest : List (Nat × CanMsg)) : State × Stats × Bool × Bool :=
+  let s := { s with inbox := rest, now := s.now + dt }
+  let s := (s.emit (.rx s.now m)).checkTimeoutsRx
+  let st := { st with received := st.received + 1 }
+  if s.addr.rx.isForMe m then
+    let st := { st with processed := st.processed + 1 }
+    let (s, imm, fr) := s.processRx m
+    let st := if fr then { st with frames := st.frames + 1 } else st
+    if imm then (s, st, true, false)
+    else if doTx && s.txTimeDriven then (s, st, true, true)
+    else (s, st, false, false)
+  else if doTx && s.txTimeDriven then (s, st, true, true)
+  else (s, st, false, false)
+
+theorem rxLoop_cons (doTx : Bool) (s : State) (st : Stats) (dt : Nat) (m : CanMsg) (rest : List (Nat × CanMsg)) :
+    s.rxLoop doTx st ((dt, m) :: rest) =
+      if (rxStep doTx s st dt m rest).2.2.1 then ((rxStep doTx s st dt m rest).1, (rxStep doTx s st dt m rest).2.1, (rxStep doTx s st dt m rest).2.2.2)
+      else (rxStep doTx s st dt m rest).1.rxLoop doTx (rxStep doTx s st dt m rest).2.1 rest := by
+  simp only [State.rxLoop, rxStep]
+  split
+  · rcases (State.processRx _ m) with ⟨sC, imm, fr⟩
+    simp only
+    cases imm
+    · simp only [Bool.false_eq_true, if_false]
+      split <;> simp
+    · simp
+  · split <;> simp
+
+theorem rxStep_inbox (doTx : Bool) (s : State) (st : Stats) (dt : Nat) (m : CanMsg) (rest : List (Nat × CanMsg)) :
+    (rxStep doTx s st dt m rest).1.inbox = rest := by
+  have h1 := fun s => (checkTimeoutsRx_inbox_exc s).1
+  have h2 := fun s => (processRx_inbox_exc s m).1
+  simp only [rxStep]
+  split
+  · rcases hp : (State.processRx _ m) with ⟨sC, imm, fr⟩
+    have := h2 (State.checkTimeoutsRx (State.emit { s with inbox := rest, now := s.now + dt } (.rx (s.now + dt) m)))
+    rw [hp, h1] at this
+    simp only
+    split
+    · exact this
+    · split <;> exact this
+  · split <;> (rw [h1]; rfl)
+
+theorem rxStep_exc (doTx : Bool) (s : State) (st : Stats) (dt : Nat) (m : CanMsg) (rest : List (Nat × CanMsg)) :
+    (rxStep doTx s st dt m rest).1.exc = s.exc := by
+  have h1 := fun s => (checkTimeoutsRx_inbox_exc s).2
+  have h2 := fun s => (processRx_inbox_exc s m).2
+  simp only [rxStep]
+  split
+  · rcases hp : (State.processRx _ m) with ⟨sC, imm, fr⟩
+    have := h2 (State.checkTimeoutsRx (State.emit { s with inbox := rest, now := s.now + dt } (.rx (s.now + dt) m)))
+    rw [hp, h1] at this
+    simp only
+    split
+    · exact this
+    · split <;> exact this
+  · split <;> (rw [h1]; rfl)
+
+theorem pvEq_pTxStPV (a b : TxSt) : pvEq (pTxStPV a) (pTxStPV b) = decide (a = b) := by
+  cases a <;> cases b <;> simp [pTxStPV]
+theorem pvEq_pRxStPV (a b : RxSt) : pvEq (pRxStPV a) (pRxStPV b) = decide (a = b) := by
+  cases a <;> cases b <;> simp [pRxStPV]
+
+/-- `do_tx and self.tx_state in (TRANSMIT_CF, TRANSMIT_SF_STANDBY, TRANSMIT_FF_STANDBY)` = `doTx && s.txTimeDriven` -/
+theorem eval_timeDriven (M : Meths) (env : Env) (s : State) (doTx : Bool) (hRd : Reads env s) (hd : env "do_tx" = some (pbool doTx)) :
+    eval M env timeDrivenTest = .ok (pbool (doTx && s.txTimeDriven)) := by
+  cases doTx with
+  | false => simp [timeDrivenTest, eval, hd]
+  | true =>
+    have hl : eval M env (.lst (.cons (.var "self.TxState.TRANSMIT_CF") (.cons (.var "self.TxState.TRANSMIT_SF_STANDBY")
+        (.cons (.var "self.TxState.TRANSMIT_FF_STANDBY") .nil)))) =
+        .ok (.list [.enum "TxState" "TRANSMIT_CF", .enum "TxState" "TRANSMIT_SF_STANDBY", .enum "TxState" "TRANSMIT_FF_STANDBY"]) := by
+      simp [eval, evalArgs, hRd.txCf, hRd.txSf, hRd.txFf, pTxStPV]
+    rw [timeDrivenTest, eval_and_true M env _ _ _ (eval_var M env _ _ hd) rfl,
+      eval_cmp M env _ _ _ _ _ (eval_var M env _ _ hRd.txState) hl, evalCmp_isIn]
+    simp only [State.txTimeDriven]
+    cases s.txState <;> simp [pTxStPV]
+
+/-- the last statement of the block under `if msg is not None:`: `if do_tx and self.tx_state in (...): run_process = True; break` -/
+theorem rx_tail (hM : ProcessCallees M R msgPV) (env : Env) (s : State) (doRx doTx run : Bool) (tmo : PV) (st : Stats) (mv : PV)
+    (hR : R env s) (hL : Loc env doRx doTx tmo run st) (hm : env "msg" = some mv) (hf : env "first_loop" = some (pbool false)) :
+    ∃ envF, (∀ j, exec2B (j + 8) M env (.cons (.ite timeDrivenTest runBreakBlk .nil) .nil) =
+        .ok (if doTx && s.txTimeDriven then .brk envF else .next envF)) ∧
+      R envF s ∧ Loc envF doRx doTx tmo (run || (doTx && s.txTimeDriven)) st ∧ envF "msg" = some mv ∧
+      envF "first_loop" = some (pbool false) := by
+  have hc := eval_timeDriven M env s doTx (hM.reads env s hR) hL.doTx
+  cases htd : (doTx && s.txTimeDriven) with
+  | false =>
+    rw [htd] at hc
+    refine ⟨env, ?_, hR, by simpa using hL, hm, hf⟩
+    intro j
+    rw [b_ite_skip _ _ _ _ _ _ _ hc rfl, exec2B_nil]
+    rfl
+  | true =>
+    rw [htd] at hc
+    refine ⟨env.set "run_process" (pbool true), ?_, hM.R_set _ _ _ _ (by decide) hR, by simpa using hL.set_run true,
+      by simp [set_get, hm], by simp [set_get, hf]⟩
+    intro j
+    rw [b_ite_true _ _ _ _ _ _ _ _ hc rfl, runBreakBlk,
+      b_assign _ _ _ _ _ _ _ (by simp [eval] : eval M env .tt = .ok (pbool true)), b_break]
+    rfl
+
+/-- the block under `if for_me:` -/
+theorem rx_forme (hM : ProcessCallees M R msgPV) (env : Env) (s sC : State) (m : CanMsg) (imm fr : Bool)
+    (doRx doTx run : Bool) (tmo : PV) (st : Stats)
+    (hR : R env s) (hL : Loc env doRx doTx tmo run st) (hm : env "msg" = some (msgPV m)) (hf : env "first_loop" = some (pbool false))
+    (hp : s.processRx m = (sC, imm, fr)) :
+    ∃ envF, (∀ j, exec2B (j + 8) M env rxForMeBlk = .ok (if imm then .brk envF else .next envF)) ∧
+      R envF sC ∧
+      Loc envF doRx doTx tmo run
+        (if fr then { st with processed := st.processed + 1, frames := st.frames + 1 } else { st with processed := st.processed + 1 }) ∧
+      envF "msg" = some (msgPV m) ∧ envF "first_loop" = some (pbool false) := by
+  have hR1 := hM.R_set env s "msg_received_processed" (pint ((st.processed + 1 : Nat) : Int)) (by decide) hR
+  have hm1 : (env.set "msg_received_processed" (pint ((st.processed + 1 : Nat) : Int))) "msg" = some (msgPV m) := by simp [set_get, hm]
+  obtain ⟨e2, p2, r2, i2, f2, k2⟩ := hM.process_rx _ s m hR1
+  rw [hp] at r2 i2 f2
+  simp only at r2 i2 f2
+  have L2 : Loc e2 doRx doTx tmo run { st with processed := st.processed + 1 } := (hL.set_processed (st.processed + 1)).kept k2 (by simp)
+  have m2 : e2 "msg" = some (msgPV m) := by rw [k2 _ (by decide) (by simp)]; exact hm1
+  have fl2 : e2 "first_loop" = some (pbool false) := by rw [k2 _ (by decide) (by simp)]; simp [set_get, hf]
+  have head : ∀ j, exec2B (j + 8) M env rxForMeBlk =
+      exec2B (j + 6) M e2
+        (.cons (.ite (.var "rx_result.frame_received")
+            (.cons (.assign "nb_frame_received" (.binop .add (.var "nb_frame_received") (.int 1))) .nil) .nil)
+          (.cons (.ite (.var "rx_result.immediate_tx_required") (.cons .break_ .nil) .nil) .nil)) := by
+    intro j
+    rw [rxForMeBlk, b_assign _ _ _ _ _ _ _ (eval_incr M env "msg_received_processed" st.processed hL.processed),
+      b_next _ _ _ e2 _ _ rfl (proc1 M _ e2 _ _ _ (by decide) (eval_var M _ _ _ hm1) p2)]
+  -- `if rx_result.immediate_tx_required: break`
+  have last : ∀ (e3 : Env), e3 "rx_result.immediate_tx_required" = some (pbool imm) →
+      ∀ j, exec2B (j + 5) M e3 (.cons (.ite (.var "rx_result.immediate_tx_required") (.cons .break_ .nil) .nil) .nil) =
+        .ok (if imm then .brk e3 else .next e3) := by
+    intro e3 i3 j
+    cases imm with
+    | false => rw [b_ite_skip _ _ _ _ _ _ _ (eval_var M _ _ _ i3) rfl, exec2B_nil]; rfl
+    | true => rw [b_ite_true _ _ _ _ _ _ _ _ (eval_var M _ _ _ i3) rfl, b_break]; rfl
+  cases fr with
+  | false =>
+    refine ⟨e2, ?_, r2, by simpa using L2, m2, fl2⟩
+    intro j
+    rw [head, b_ite_skip _ _ _ _ _ _ _ (eval_var M _ _ _ f2) rfl, last e2 i2]
+  | true =>
+    refine ⟨e2.set "nb_frame_received" (pint ((st.frames + 1 : Nat) : Int)), ?_, hM.R_set _ _ _ _ (by decide) r2,
+      by simpa using L2.set_frames (st.frames + 1), by simp [set_get, m2], by simp [set_get, fl2]⟩
+    intro j
+    rw [head, b_ite_true _ _ _ _ _ _ _ _ (eval_var M _ _ _ f2) rfl,
+      b_assign _ _ _ _ _ _ _ (eval_incr M e2 "nb_frame_received" st.frames L2.frames), exec2B_nil]
+    simp only
+    rw [last _ (by simp [set_get, i2])]
+
+/-- one pass through the body of the rx loop when `rxfn` returns a frame: the model's `rxStep` -/
+theorem rx_body_some (hM : ProcessCallees M R msgPV) (env : Env) (s : State) (dt : Nat) (m : CanMsg) (rest : List (Nat × CanMsg))
+    (doRx doTx run : Bool) (tmo : PV) (st : Stats)
+    (hR : R env s) (hL : Loc env doRx doTx tmo run st) (hin : s.inbox = (dt, m) :: rest) :
+    ∃ envF, (∀ n, 20 ≤ n → exec2B n M env rxBody =
+        .ok (if (rxStep doTx s st dt m rest).2.2.1 then .brk envF else .next envF)) ∧
+      R envF (rxStep doTx s st dt m rest).1 ∧
+      Loc envF doRx doTx tmo (run || (rxStep doTx s st dt m rest).2.2.2) (rxStep doTx s st dt m rest).2.1 ∧
+      envF "msg" = some (msgPV m) ∧ envF "first_loop" = some (pbool false) := by
+  have hR0 := hM.R_set env s "first_loop" (pbool false) (by decide) hR
+  have L0 : Loc (env.set "first_loop" (pbool false)) doRx doTx tmo run st := hL.set_other _ _ (by decide)
+  obtain ⟨e1, p1, r1, m1, k1⟩ := hM.rxfn_some _ s tmo dt m rest hR0 hin
+  have L1 : Loc e1 doRx doTx tmo run st := L0.kept k1 (by simp)
+  have f1 : e1 "first_loop" = some (pbool false) := by rw [k1 _ (by decide) (by simp)]; simp [set_get]
+  obtain ⟨e2, p2, r2, k2⟩ := hM.check_timeouts_rx e1 _ r1
+  have L2 : Loc e2 doRx doTx tmo run st := L1.kept k2 (by simp)
+  have f2 : e2 "first_loop" = some (pbool false) := by rw [k2 _ (by decide) (by simp)]; exact f1
+  have m2 : e2 "msg" = some (msgPV m) := by rw [k2 _ (by decide) (by simp)]; exact m1
+  have htmo : (env.set "first_loop" (pbool false)) "rx_timeout" = some tmo := L0.tmo
+  have head : ∀ j, exec2B (j + 20) M env rxBody =
+      exec2B (j + 17) M e2 (.cons (.ite (.isNotNone (.var "msg")) rxMsgBlk .nil) .nil) := by
+    intro j
+    rw [rxBody, b_assign _ _ _ _ _ _ _ (by simp [eval] : eval M env .ff = .ok (pbool false)),
+      b_next _ _ _ e1 _ _ rfl (proc1 M _ e1 _ _ _ (by decide) (eval_var M _ _ _ htmo) p1),
+      b_next _ _ _ e2 _ _ rfl (proc0 M _ e2 _ (by decide) p2)]
+  -- the state after `rxfn` and `_check_timeouts_rx`
+  generalize hsB : State.checkTimeoutsRx (State.emit { s with inbox := rest, now := s.now + dt } (.rx (s.now + dt) m)) = sB at r2
+  -- `msg_received += 1; for_me = ...; if DEBUG: ...`
+  have hR3 := hM.R_set e2 sB "msg_received" (pint ((st.received + 1 : Nat) : Int)) (by decide) r2
+  have hfm := hM.is_for_me _ sB m hR3
+  have hR4 := hM.R_set _ sB "for_me" (pbool (sB.addr.rx.isForMe m)) (by decide) hR3
+  have L4 : Loc ((e2.set "msg_received" (pint ((st.received + 1 : Nat) : Int))).set "for_me" (pbool (sB.addr.rx.isForMe m)))
+      doRx doTx tmo run { st with received := st.received + 1 } := (L2.set_received (st.received + 1)).set_other _ _ (by decide)
+  have m3 : (e2.set "msg_received" (pint ((st.received + 1 : Nat) : Int))) "msg" = some (msgPV m) := by simp [set_get, m2]
+  have m4 : ((e2.set "msg_received" (pint ((st.received + 1 : Nat) : Int))).set "for_me" (pbool (sB.addr.rx.isForMe m))) "msg" =
+      some (msgPV m) := by simp [set_get, m2]
+  have f4 : ((e2.set "msg_received" (pint ((st.received + 1 : Nat) : Int))).set "for_me" (pbool (sB.addr.rx.isForMe m))) "first_loop" =
+      some (pbool false) := by simp [set_get, f2]
+  have fm4 : ((e2.set "msg_received" (pint ((st.received + 1 : Nat) : Int))).set "for_me" (pbool (sB.addr.rx.isForMe m))) "for_me" =
+      some (pbool (sB.addr.rx.isForMe m)) := by simp [set_get]
+  have mid : ∀ j, exec2B (j + 13) M e2 rxMsgBlk =
+      exec2B (j + 10) M ((e2.set "msg_received" (pint ((st.received + 1 : Nat) : Int))).set "for_me" (pbool (sB.addr.rx.isForMe m)))
+        (.cons (.ite (.var "for_me") rxForMeBlk .nil) (.cons (.ite timeDrivenTest runBreakBlk .nil) .nil)) := by
+    intro j
+    rw [rxMsgBlk, b_assign _ _ _ _ _ _ _ (eval_incr M e2 "msg_received" st.received L2.received),
+      b_assign _ _ _ _ _ _ _ (fn1 M _ _ _ _ _ (by decide) (eval_var M _ _ _ m3) hfm),
+      b_ite_skip _ _ _ _ _ _ _ (eval_logTest hM _ sB hR4) rfl]
+  have hstep : rxStep doTx s st dt m rest =
+      (if sB.addr.rx.isForMe m then
+        (if (sB.processRx m).2.1 then ((sB.processRx m).1,
+            (if (sB.processRx m).2.2 then { st with received := st.received + 1, processed := st.processed + 1, frames := st.frames + 1 }
+             else { st with received := st.received + 1, processed := st.processed + 1 }), true, false)
+         else ((sB.processRx m).1,
+            (if (sB.processRx m).2.2 then { st with received := st.received + 1, processed := st.processed + 1, frames := st.frames + 1 }
+             else { st with received := st.received + 1, processed := st.processed + 1 }),
+            (doTx && (sB.processRx m).1.txTimeDriven), (doTx && (sB.processRx m).1.txTimeDriven)))
+       else (sB, { st with received := st.received + 1 }, (doTx && sB.txTimeDriven), (doTx && sB.txTimeDriven))) := by
+    simp only [rxStep, hsB]
+    split
+    · rcases (State.processRx sB m) with ⟨sC, imm, fr⟩
+      simp only
+      cases imm <;> cases fr <;> simp <;> split <;> simp_all
+    · split <;> simp_all
+  cases hfor : sB.addr.rx.isForMe m with
+  | false =>
+    rw [hfor] at fm4 L4 m4 f4 hR4 mid
+    obtain ⟨envF, hrun, rF, LF, mF, fF⟩ := rx_tail hM _ sB doRx doTx run tmo _ (msgPV m) hR4 L4 m4 f4
+    rw [hstep, hfor]
+    simp only [Bool.false_eq_true, if_false]
+    refine ⟨envF, ?_, rF, LF, mF, fF⟩
+    intro n hn
+    obtain ⟨j, rfl⟩ : ∃ j, n = j + 20 := ⟨n - 20, by omega⟩
+    rw [head, b_ite_true _ _ _ _ _ _ _ _ (eval_isNotNone M _ _ _ m2) (by simp [msgPV_bne hM]), mid,
+      b_ite_skip _ _ _ _ _ _ _ (eval_var M _ _ _ fm4) rfl, hrun]
+    cases (doTx && sB.txTimeDriven) <;> rfl
+  | true =>
+    rw [hfor] at fm4 L4 m4 f4 hR4 mid
+    rcases hp : sB.processRx m with ⟨sC, imm, fr⟩
+    obtain ⟨e5, hfmrun, r5, L5, m5, f5⟩ := rx_forme hM _ sB sC m imm fr doRx doTx run tmo _ hR4 L4 m4 f4 hp
+    rw [hstep, hfor, hp]
+    simp only [if_true]
+    cases imm with
+    | true =>
+      simp only [if_true]
+      refine ⟨e5, ?_, r5, by cases fr <;> simpa using L5, m5, f5⟩
+      intro n hn
+      obtain ⟨j, rfl⟩ : ∃ j, n = j + 20 := ⟨n - 20, by omega⟩
+      rw [head, b_ite_true _ _ _ _ _ _ _ _ (eval_isNotNone M _ _ _ m2) (by simp [msgPV_bne hM]), mid,
+        b_ite_true _ _ _ _ _ _ _ _ (eval_var M _ _ _ fm4) rfl, hfmrun]
+      rfl
+    | false =>
+      simp only [Bool.false_eq_true, if_false]
+      obtain ⟨envF, hrun, rF, LF, mF, fF⟩ := rx_tail hM e5 sC doRx doTx run tmo _ (msgPV m) r5 L5 m5 f5
+      refine ⟨envF, ?_, rF, by cases fr <;> simpa using LF, mF, fF⟩
+      intro n hn
+      obtain ⟨j, rfl⟩ : ∃ j, n = j + 20 := ⟨n - 20, by omega⟩
+      rw [head, b_ite_true _ _ _ _ _ _ _ _ (eval_isNotNone M _ _ _ m2) (by simp [msgPV_bne hM]), mid,
+        b_ite_true _ _ _ _ _ _ _ _ (eval_var M _ _ _ fm4) rfl, hfmrun]
+      simp only [Bool.false_eq_true, if_false]
+      rw [hrun]
+      cases (doTx && sC.txTimeDriven) <;> rfl
+
+/-- one pass through the body of the rx loop when `rxfn` returns `None` -/
+theorem rx_body_none (hM : ProcessCallees M R msgPV) (env : Env) (s : State) (doRx doTx run : Bool) (tmo : PV) (st : Stats)
+    (hR : R env s) (hL : Loc env doRx doTx tmo run st) (hin : s.inbox = []) :
+    ∃ envF, (∀ n, 20 ≤ n → exec2B n M env rxBody = .ok (.next envF)) ∧
+      R envF ((({ s with inbox := [] } : State).emit (.rxNone s.now)).checkTimeoutsRx) ∧
+      Loc envF doRx doTx tmo run st ∧ envF "msg" = some pnone ∧ envF "first_loop" = some (pbool false) := by
+  have hR0 := hM.R_set env s "first_loop" (pbool false) (by decide) hR
+  have L0 : Loc (env.set "first_loop" (pbool false)) doRx doTx tmo run st := hL.set_other _ _ (by decide)
+  obtain ⟨e1, p1, r1, m1, k1⟩ := hM.rxfn_none _ s tmo hR0 hin
+  have L1 : Loc e1 doRx doTx tmo run st := L0.kept k1 (by simp)
+  have f1 : e1 "first_loop" = some (pbool false) := by rw [k1 _ (by decide) (by simp)]; simp [set_get]
+  obtain ⟨e2, p2, r2, k2⟩ := hM.check_timeouts_rx e1 _ r1
+  have L2 : Loc e2 doRx doTx tmo run st := L1.kept k2 (by simp)
+  have f2 : e2 "first_loop" = some (pbool false) := by rw [k2 _ (by decide) (by simp)]; exact f1
+  have m2 : e2 "msg" = some pnone := by rw [k2 _ (by decide) (by simp)]; exact m1
+  have htmo : (env.set "first_loop" (pbool false)) "rx_timeout" = some tmo := L0.tmo
+  refine ⟨e2, ?_, r2, L2, m2, f2⟩
+  intro n hn
+  obtain ⟨j, rfl⟩ : ∃ j, n = j + 20 := ⟨n - 20, by omega⟩
+  rw [rxBody, b_assign _ _ _ _ _ _ _ (by simp [eval] : eval M env .ff = .ok (pbool false)),
+    b_next _ _ _ e1 _ _ rfl (proc1 M _ e1 _ _ _ (by decide) (eval_var M _ _ _ htmo) p1),
+    b_next _ _ _ e2 _ _ rfl (proc0 M _ e2 _ (by decide) p2),
+    b_ite_skip _ _ _ _ _ _ _ (eval_isNotNone M _ _ _ m2) (by simp), exec2B_nil]
+
+/-- **the inner rx loop = `State.rxLoop`**, by induction on the inbox: for every state whose bus input is `inbox`, the `while` (fuel
+    `≥ |inbox| + 22`) ends in an environment that shows the model's final state, with the model's counters, and `run_process` raised iff
+    the model asks for another pass (the time-driven transmit state, with `do_tx`).  The two `break`s are the two early exits of the model. -/
+theorem rx_loop_agrees (hM : ProcessCallees M R msgPV) : ∀ (inbox : List (Nat × CanMsg)) (env : Env) (s : State)
+    (doRx doTx run : Bool) (tmo : PV) (st : Stats) (mv : PV) (fl : Bool),
+    s.inbox = inbox → R env s → Loc env doRx doTx tmo run st → env "msg" = some mv → env "first_loop" = some (pbool fl) →
+    ((mv != pnone) || fl) = true →
+    ∃ env', (∀ n, inbox.length + 22 ≤ n → exec2S n M env (.while_ loopCond rxBody) = .ok (.next env')) ∧
+      R env' (s.rxLoop doTx st inbox).1 ∧ Loc env' doRx doTx tmo (run || (s.rxLoop doTx st inbox).2.2) (s.rxLoop doTx st inbox).2.1
+  | [], env, s, doRx, doTx, run, tmo, st, mv, fl, hin, hR, hL, hm, hf, hc => by
+    obtain ⟨envF, hbody, rF, LF, mF, fF⟩ := rx_body_none hM env s doRx doTx run tmo st hR hL hin
+    refine ⟨envF, ?_, rF, by simpa [State.rxLoop] using LF⟩
+    intro n hn
+    obtain ⟨k, rfl⟩ : ∃ k, n = k + 2 := ⟨n - 2, by omega⟩
+    rw [w_true _ _ _ _ _ _ (eval_loopCond M env mv fl hm hf) (by rw [hc]; rfl), hbody (k + 1) (by simp only [List.length_nil] at hn; omega)]
+    simp only
+    rw [w_false _ _ _ _ _ _ (eval_loopCond M envF _ _ mF fF) (by simp)]
+  | (dt, m) :: rest, env, s, doRx, doTx, run, tmo, st, mv, fl, hin, hR, hL, hm, hf, hc => by
+    obtain ⟨envF, hbody, rF, LF, mF, fF⟩ := rx_body_some hM env s dt m rest doRx doTx run tmo st hR hL hin
+    rw [rxLoop_cons]
+    cases hstop : (rxStep doTx s st dt m rest).2.2.1 with
+    | true =>
+      rw [hstop] at hbody
+      simp only [if_true]
+      refine ⟨envF, ?_, rF, LF⟩
+      intro n hn
+      obtain ⟨k, rfl⟩ : ∃ k, n = k + 1 := ⟨n - 1, by omega⟩
+      rw [w_true _ _ _ _ _ _ (eval_loopCond M env mv fl hm hf) (by rw [hc]; rfl),
+        hbody k (by simp only [List.length_cons] at hn; omega)]
+      rfl
+    | false =>
+      rw [hstop] at hbody
+      simp only [Bool.false_eq_true, if_false]
+      -- a step that does not stop does not ask for another pass
+      have hrun : (rxStep doTx s st dt m rest).2.2.2 = false := by
+        have : (rxStep doTx s st dt m rest).2.2.2 = true → (rxStep doTx s st dt m rest).2.2.1 = true := by
+          simp only [rxStep]
+          split
+          · rcases (State.processRx _ m) with ⟨sC, imm, fr⟩
+            simp only
+            split
+            · simp
+            · split <;> simp
+          · split <;> simp
+        cases h : (rxStep doTx s st dt m rest).2.2.2 with
+        | false => rfl
+        | true => rw [this h] at hstop; cases hstop
+      rw [hrun, Bool.or_false] at LF
+      obtain ⟨env', hloop, r', L'⟩ := rx_loop_agrees hM rest envF _ doRx doTx run tmo _ (msgPV m) false
+        (rxStep_inbox doTx s st dt m rest) rF LF mF fF (by simp [msgPV_bne hM])
+      refine ⟨env', ?_, r', L'⟩
+      intro n hn
+      obtain ⟨k, rfl⟩ : ∃ k, n = k + 1 := ⟨n - 1, by omega⟩
+      rw [w_true _ _ _ _ _ _ (eval_loopCond M env mv fl hm hf) (by rw [hc]; rfl),
+        hbody k (by simp only [List.length_cons] at hn; omega)]
+      simp only [Bool.false_eq_true, if_false]
+      exact hloop k (by simp only [List.length_cons] at hn; omega)
+
+/-- the rx loop touches neither the exception flag ... -/
+theorem rxLoop_exc (doTx : Bool) : ∀ (inbox : List (Nat × CanMsg)) (s : State) (st : Stats), (s.rxLoop doTx st inbox).1.exc = s.exc
+  | [], s, st => by
+    simp only [State.rxLoop]
+    rw [(checkTimeoutsRx_inbox_exc _).2]
+    rfl
+  | (dt, m) :: rest, s, st => by
+    rw [rxLoop_cons]
+    split
+    · exact rxStep_exc doTx s st dt m rest
+    · rw [rxLoop_exc doTx rest]; exact rxStep_exc doTx s st dt m rest
+
+/-! ## 5. the outer loop -/
+
+/-- the model's `startWithTx` -/
+def startWithTx (doTx : Bool) (s : State) : Bool :=
+  doTx && !s.txQueue.isEmpty && decide (s.rxState = .idle) && decide (s.txState = .idle)
+
+/-- the rx half of one iteration of the model's outer loop: (state, stats, `run_process` requested) -/
+def afterRx (doRx doTx : Bool) (s : State) (st : Stats) : State × Stats × Bool :=
+  if doRx && !startWithTx doTx s then s.rxLoop doTx st s.inbox else (s, st, false)
+
+/-- `self.rate_limiter.update()` -/
+def rlUpdated (s : State) : State := { s with rl := s.rl.update s.cfg.rlWindowNs s.now }
+
+/-- the tx half: (state, stats, `run_process` requested, the model ran out of fuel) -/
+def afterTx (doTx : Bool) (s : State) (st : Stats) : State × Stats × Bool × Bool :=
+  if doTx then ((State.txLoop s.txFuel s st.sent).1, { st with sent := (State.txLoop s.txFuel s st.sent).2.1 },
+    (State.txLoop s.txFuel s st.sent).2.2.1, (State.txLoop s.txFuel s st.sent).2.2.2)
+  else (s, st, false, false)
+
+/-- one iteration of the model's outer loop: (state, stats, `run_process`, out of fuel) -/
+def procStep (doRx doTx : Bool) (s : State) (st : Stats) : State × Stats × Bool × Bool :=
+  let a := afterRx doRx doTx s st
+  let t := afterTx doTx (rlUpdated a.1) a.2.1
+  (t.1, t.2.1, startWithTx doTx s || a.2.2 || t.2.2.1, t.2.2.2)
+
+theorem processLoop_succ (f : Nat) (doRx doTx : Bool) (s : State) (st : Stats) :
+    State.processLoop (f + 1) doRx doTx s st =
+      if (procStep doRx doTx s st).1.exc.isSome then ((procStep doRx doTx s st).1, (procStep doRx doTx s st).2.1, false)
+      else if (procStep doRx doTx s st).2.2.2 then ((procStep doRx doTx s st).1, (procStep doRx doTx s st).2.1, true)
+      else if (procStep doRx doTx s st).2.2.1 then State.processLoop f doRx doTx (procStep doRx doTx s st).1 (procStep doRx doTx s st).2.1
+      else ((procStep doRx doTx s st).1, (procStep doRx doTx s st).2.1, false) := by
+  simp only [State.processLoop, procStep, afterRx, afterTx, rlUpdated, startWithTx]
+  cases doTx <;> cases doRx <;> simp
+
+/-- a compound statement that falls through -/
+theorem b_stmt_next (n : Nat) (M : Meths) (env env1 : Env) (s : PStmt) (rest : PBlock) (h : exec2S n M env s = .ok (.next env1)) :
+    exec2B (n + 1) M env (.cons s rest) = exec2B n M env1 rest := by
+  rw [exec2B_cons, h]
+
+/-- a statement that raises: so does the block -/
+theorem b_stmt_raised (n : Nat) (M : Meths) (env env1 : Env) (s : PStmt) (rest : PBlock) (cls : String)
+    (h : exec2S n M env s = .ok (.raised cls env1)) :
+    exec2B (n + 1) M env (.cons s rest) = .ok (.raised cls env1) := by
+  rw [exec2B_cons, h]
+
+/-- `start_with_tx = do_tx and not self.tx_queue.empty() and self.rx_state == IDLE and self.tx_state == IDLE` -/
+theorem eval_startWithTx (hM : ProcessCallees M R msgPV) (env : Env) (s : State) (doTx : Bool) (hR : R env s)
+    (hd : env "do_tx" = some (pbool doTx)) :
+    eval M env startWithTxExpr = .ok (pbool (startWithTx doTx s)) := by
+  have hRd := hM.reads env s hR
+  have hq : eval M env (.not_ (.call "self.tx_queue.empty" .nil)) = .ok (pbool (!s.txQueue.isEmpty)) :=
+    eval_not M env _ _ (fn0 M env _ _ (by decide) (hM.tx_queue_empty env s hR))
+  have hrx : eval M env (.cmp .eq (.var "self.rx_state") (.var "self.RxState.IDLE")) = .ok (pbool (decide (s.rxState = .idle))) := by
+    rw [eval_cmp M env _ _ _ _ _ (eval_var _ _ _ _ hRd.rxState) (eval_var _ _ _ _ hRd.rxIdle), evalCmp_eq, pvEq_pRxStPV]
+  have htx : eval M env (.cmp .eq (.var "self.tx_state") (.var "self.TxState.IDLE")) = .ok (pbool (decide (s.txState = .idle))) := by
+    rw [eval_cmp M env _ _ _ _ _ (eval_var _ _ _ _ hRd.txState) (eval_var _ _ _ _ hRd.txIdle), evalCmp_eq, pvEq_pTxStPV]
+  unfold startWithTxExpr startWithTx
+  cases doTx with
+  | false => rw [eval_and_false M env _ _ _ (eval_var M env _ _ hd) rfl]; simp
+  | true =>
+    rw [eval_and_true M env _ _ _ (eval_var M env _ _ hd) rfl]
+    cases he : s.txQueue.isEmpty with
+    | true => rw [he] at hq; rw [eval_and_false M env _ _ _ hq rfl]; simp
+    | false =>
+      rw [he] at hq
+      rw [eval_and_true M env _ _ _ hq rfl]
+      by_cases h1 : s.rxState = .idle
+      · rw [eval_and_true M env _ _ _ hrx (by simp [h1]), htx]; simp [h1]
+      · rw [eval_and_false M env _ _ _ hrx (by simp [h1])]; simp [h1]
+
+/-- the first four statements of the outer body -/
+theorem outer_head (hM : ProcessCallees M R msgPV) (env : Env) (s : State) (doRx doTx run : Bool) (tmo : PV) (st : Stats)
+    (hR : R env s) (hL : Loc env doRx doTx tmo run st) :
+    ∃ env3, (∀ j, exec2B (j + 30) M env outerBody = exec2B (j + 26) M env3 outerTail4) ∧ R env3 s ∧
+      Loc env3 doRx doTx tmo (startWithTx doTx s) st ∧ env3 "msg" = some pnone ∧
+      env3 "start_with_tx" = some (pbool (startWithTx doTx s)) := by
+  have r0 := hM.R_set env s "msg" pnone (by decide) hR
+  have L0 : Loc (env.set "msg" pnone) doRx doTx tmo run st := hL.set_other _ _ (by decide)
+  have r1 := hM.R_set _ s "run_process" (pbool false) (by decide) r0
+  have L1 := L0.set_run false
+  have hsw := eval_startWithTx hM _ s doTx r1 L1.doTx
+  have r2 := hM.R_set _ s "start_with_tx" (pbool (startWithTx doTx s)) (by decide) r1
+  have L2 : Loc (((env.set "msg" pnone).set "run_process" (pbool false)).set "start_with_tx" (pbool (startWithTx doTx s)))
+      doRx doTx tmo false st := L1.set_other _ _ (by decide)
+  have head : ∀ j, exec2B (j + 30) M env outerBody =
+      exec2B (j + 27) M (((env.set "msg" pnone).set "run_process" (pbool false)).set "start_with_tx" (pbool (startWithTx doTx s)))
+        (.cons (.ite (.var "start_with_tx") (.cons (.assign "run_process" .tt) .nil) .nil) outerTail4) := by
+    intro j
+    rw [outerBody, b_assign _ _ _ _ _ _ _ (by simp [eval] : eval M env .none = .ok pnone),
+      b_assign _ _ _ _ _ _ _ (by simp [eval] : eval M _ .ff = .ok (pbool false)),
+      b_assign _ _ _ _ _ _ _ hsw]
+  cases hs : startWithTx doTx s with
+  | false =>
+    rw [hs] at head r2 L2
+    refine ⟨_, ?_, r2, L2, by simp [set_get], by simp [set_get]⟩
+    intro j
+    rw [head, b_ite_skip _ _ _ _ _ _ _ (eval_var M _ "start_with_tx" (pbool false) (by simp [set_get])) rfl]
+  | true =>
+    rw [hs] at head r2 L2
+    refine ⟨_, ?_, hM.R_set _ s "run_process" (pbool true) (by decide) r2, L2.set_run true, by simp [set_get], by simp [set_get]⟩
+    intro j
+    rw [head, b_ite_true _ _ _ _ _ _ _ _ (eval_var M _ "start_with_tx" (pbool true) (by simp [set_get])) rfl,
+      b_assign _ _ _ _ _ _ _ (by simp [eval] : eval M _ .tt = .ok (pbool true)), exec2B_nil]
+
+/-- `if do_rx and not start_with_tx: first_loop = True; while ...` = the model's `afterRx` -/
+theorem outer_rx (hM : ProcessCallees M R msgPV) (env : Env) (s : State) (doRx doTx run : Bool) (tmo : PV) (st : Stats)
+    (hR : R env s) (hL : Loc env doRx doTx tmo run st) (hm : env "msg" = some pnone)
+    (hsw : env "start_with_tx" = some (pbool (startWithTx doTx s))) :
+    ∃ env4, (∀ j, s.inbox.length ≤ j → exec2B (j + 26) M env outerTail4 = exec2B (j + 25) M env4 outerTail5) ∧
+      R env4 (afterRx doRx doTx s st).1 ∧ Loc env4 doRx doTx tmo (run || (afterRx doRx doTx s st).2.2) (afterRx doRx doTx s st).2.1 := by
+  have hc : eval M env (.and_ (.var "do_rx") (.not_ (.var "start_with_tx"))) = .ok (pbool (doRx && !startWithTx doTx s)) := by
+    cases doRx with
+    | false => rw [eval_and_false M env _ _ _ (eval_var M env _ _ hL.doRx) rfl]; rfl
+    | true => rw [eval_and_true M env _ _ _ (eval_var M env _ _ hL.doRx) rfl, eval_not M env _ _ (eval_var M env _ _ hsw)]; rfl
+  cases hgo : (doRx && !startWithTx doTx s) with
+  | false =>
+    rw [hgo] at hc
+    refine ⟨env, ?_, by simpa [afterRx, hgo] using hR, by simpa [afterRx, hgo] using hL⟩
+    intro j _
+    rw [outerTail4, b_ite_skip _ _ _ _ _ _ _ hc rfl]
+  | true =>
+    rw [hgo] at hc
+    have r1 := hM.R_set env s "first_loop" (pbool true) (by decide) hR
+    have L1 : Loc (env.set "first_loop" (pbool true)) doRx doTx tmo run st := hL.set_other _ _ (by decide)
+    obtain ⟨env4, hloop, r4, L4⟩ := rx_loop_agrees hM s.inbox _ s doRx doTx run tmo st pnone true rfl r1 L1
+      (by simp [set_get, hm]) (by simp [set_get]) (by simp)
+    refine ⟨env4, ?_, by simpa [afterRx, hgo] using r4, by simpa [afterRx, hgo] using L4⟩
+    intro j hj
+    rw [outerTail4, b_ite_true _ _ _ _ _ _ _ _ hc rfl, rxPart,
+      b_assign _ _ _ _ _ _ _ (by simp [eval] : eval M env .tt = .ok (pbool true)),
+      b_stmt_next _ _ _ env4 _ _ (hloop (j + 22) (by omega)), exec2B_nil]
+
+/-- the last three statements of the outer body: the (disabled) logging and `self.last_*_state = ...` -/
+theorem outer_tail8 (hM : ProcessCallees M R msgPV) (env : Env) (s : State) (doRx doTx run : Bool) (tmo : PV) (st : Stats)
+    (hR : R env s) (hL : Loc env doRx doTx tmo run st) :
+    ∃ env', (∀ j, exec2B (j + 22) M env outerTail8 = .ok (.next env')) ∧ R env' s ∧ Loc env' doRx doTx tmo run st := by
+  have hRd := hM.reads env s hR
+  have r1 := hM.R_set env s "self.last_tx_state" (pTxStPV s.txState) (by decide) hR
+  have hRd1 := hM.reads _ s r1
+  have r2 := hM.R_set _ s "self.last_rx_state" (pRxStPV s.rxState) (by decide) r1
+  refine ⟨_, ?_, r2, (hL.set_other "self.last_tx_state" _ (by decide)).set_other "self.last_rx_state" _ (by decide)⟩
+  intro j
+  rw [outerTail8, b_ite_skip _ _ _ _ _ _ _ (eval_logTest hM _ s hR) rfl,
+    b_assign _ _ _ _ _ _ _ (eval_var M _ _ _ hRd.txState), b_assign _ _ _ _ _ _ _ (eval_var M _ _ _ hRd1.rxState), exec2B_nil]
+
+/-- `start_with_tx = False; self.rate_limiter.update(); if do_tx: ...; ...` = the model's `rlUpdated` then `afterTx` -/
+theorem outer_tail5 (hM : ProcessCallees M R msgPV) (env : Env) (s : State) (doRx doTx run : Bool) (tmo : PV) (st : Stats)
+    (hR : R env s) (hL : Loc env doRx doTx tmo run st)
+    (hoof : (afterTx doTx (rlUpdated s) st).2.2.2 = false) (hexc : (afterTx doTx (rlUpdated s) st).1.exc = none) :
+    ∃ env', (∀ j, (rlUpdated s).txFuel ≤ j → exec2B (j + 25) M env outerTail5 = .ok (.next env')) ∧
+      R env' (afterTx doTx (rlUpdated s) st).1 ∧
+      Loc env' doRx doTx tmo (run || (afterTx doTx (rlUpdated s) st).2.2.1) (afterTx doTx (rlUpdated s) st).2.1 := by
+  have r1 := hM.R_set env s "start_with_tx" (pbool false) (by decide) hR
+  have L1 : Loc (env.set "start_with_tx" (pbool false)) doRx doTx tmo run st := hL.set_other _ _ (by decide)
+  obtain ⟨e2, p2, r2, k2⟩ := hM.rl_update _ s r1
+  have L2 : Loc e2 doRx doTx tmo run st := L1.kept k2 (by simp)
+  have head : ∀ j, exec2B (j + 25) M env outerTail5 =
+      exec2B (j + 23) M e2 (.cons (.ite (.var "do_tx") txPart .nil) outerTail8) := by
+    intro j
+    rw [outerTail5, b_assign _ _ _ _ _ _ _ (by simp [eval] : eval M env .ff = .ok (pbool false)),
+      b_next _ _ _ e2 _ _ rfl (proc0 M _ e2 _ (by decide) p2)]
+  cases doTx with
+  | false =>
+    obtain ⟨env', htl, r', L'⟩ := outer_tail8 hM e2 _ doRx false run tmo st r2 L2
+    refine ⟨env', ?_, ?_, ?_⟩
+    rotate_left
+    · simp only [afterTx, Bool.false_eq_true, if_false]; exact r'
+    · simp only [afterTx, Bool.false_eq_true, if_false, Bool.or_false]; exact L'
+    intro j _
+    rw [head, b_ite_skip _ _ _ _ _ _ _ (eval_var M _ _ _ L2.doTx) rfl, htl]
+  | true =>
+    rcases hr : State.txLoop (rlUpdated s).txFuel (rlUpdated s) st.sent with ⟨s', cnt', run', oof⟩
+    simp only [afterTx, if_true, hr] at hoof hexc ⊢
+    subst hoof
+    have r3 := hM.R_set e2 _ "first_loop" (pbool true) (by decide) r2
+    have r4 := hM.R_set _ _ "msg" pnone (by decide) r3
+    have L4 : Loc ((e2.set "first_loop" (pbool true)).set "msg" pnone) doRx true tmo run st :=
+      (L2.set_other _ _ (by decide)).set_other _ _ (by decide)
+    obtain ⟨e5, hloop, r5, L5⟩ := tx_loop_agrees hM (rlUpdated s).txFuel _ (rlUpdated s) doRx true run tmo st pnone true s' cnt' run'
+      r4 L4 (by simp [set_get]) (by simp [set_get]) (by simp) hr hexc
+    obtain ⟨env', htl, r', L'⟩ := outer_tail8 hM e5 _ doRx true (run || run') tmo _ r5 L5
+    refine ⟨env', ?_, r', L'⟩
+    intro j hj
+    rw [head, b_ite_true _ _ _ _ _ _ _ _ (eval_var M _ _ _ L2.doTx) rfl, txPart,
+      b_assign _ _ _ _ _ _ _ (by simp [eval] : eval M e2 .tt = .ok (pbool true)),
+      b_assign _ _ _ _ _ _ _ (by simp [eval] : eval M _ .none = .ok pnone),
+      b_stmt_next _ _ _ e5 _ _ (hloop (j + 18) (by omega)), exec2B_nil]
+    simp only
+    rw [htl]
+
+/-- interpreter fuel that is enough for one pass through the outer body: the inbox length (rx loop), the model's `txFuel` of the state
+    the tx loop starts from, and the nesting depth -/
+def iterFuel (doRx doTx : Bool) (s : State) (st : Stats) : Nat :=
+  s.inbox.length + (rlUpdated (afterRx doRx doTx s st).1).txFuel + 30
+
+/-- **one pass through the outer body = the model's `procStep`** (no exception, tx loop within its fuel) -/
+theorem outer_body (hM : ProcessCallees M R msgPV) (env : Env) (s : State) (doRx doTx run : Bool) (tmo : PV) (st : Stats)
+    (hR : R env s) (hL : Loc env doRx doTx tmo run st)
+    (hoof : (procStep doRx doTx s st).2.2.2 = false) (hexc : (procStep doRx doTx s st).1.exc = none) :
+    ∃ env', (∀ n, iterFuel doRx doTx s st ≤ n → exec2B n M env outerBody = .ok (.next env')) ∧
+      R env' (procStep doRx doTx s st).1 ∧ Loc env' doRx doTx tmo (procStep doRx doTx s st).2.2.1 (procStep doRx doTx s st).2.1 := by
+  obtain ⟨e3, h3, r3, L3, m3, sw3⟩ := outer_head hM env s doRx doTx run tmo st hR hL
+  obtain ⟨e4, h4, r4, L4⟩ := outer_rx hM e3 s doRx doTx _ tmo st r3 L3 m3 sw3
+  obtain ⟨e5, h5, r5, L5⟩ := outer_tail5 hM e4 _ doRx doTx _ tmo _ r4 L4 hoof hexc
+  refine ⟨e5, ?_, r5, L5⟩
+  intro n hn
+  obtain ⟨j, rfl⟩ : ∃ j, n = j + 30 := ⟨n - 30, by unfold iterFuel at hn; omega⟩
+  unfold iterFuel at hn
+  rw [h3, h4 j (by omega), h5 j (by omega)]
+
+/-- interpreter fuel that is enough for the outer `while`, along the model's run with fuel `f` -/
+def pyLoopFuel : Nat → Bool → Bool → State → Stats → Nat
+  | 0, _, _, _, _ => 1
+  | f + 1, doRx, doTx, s, st =>
+    iterFuel doRx doTx s st + 1 +
+      (if (procStep doRx doTx s st).2.2.1 then pyLoopFuel f doRx doTx (procStep doRx doTx s st).1 (procStep doRx doTx s st).2.1 else 1)
+
+/-- **the outer loop = `State.processLoop`**: a run of the model (fuel `f`) that neither runs out of fuel nor ends with an exception is a run
+    of `while run_process: ...` (fuel `≥ pyLoopFuel f ...`): same final state through `R`, same four counters. -/
+theorem process_loop_agrees (hM : ProcessCallees M R msgPV) : ∀ (f : Nat) (env : Env) (s : State) (doRx doTx : Bool) (tmo : PV) (st : Stats)
+    (s' : State) (st' : Stats),
+    R env s → Loc env doRx doTx tmo true st → State.processLoop f doRx doTx s st = (s', st', false) → s'.exc = none →
+    ∃ env', (∀ n, pyLoopFuel f doRx doTx s st ≤ n → exec2S n M env (.while_ (.var "run_process") outerBody) = .ok (.next env')) ∧
+      R env' s' ∧ Loc env' doRx doTx tmo false st'
+  | 0, env, s, doRx, doTx, tmo, st, s', st', _, _, h, _ => by
+    simp [State.processLoop] at h
+  | f + 1, env, s, doRx, doTx, tmo, st, s', st', hR, hL, h, hexc => by
+    rw [processLoop_succ] at h
+    cases he : (procStep doRx doTx s st).1.exc with
+    | some e =>
+      rw [he] at h
+      simp only [Option.isSome_some, if_true, Prod.mk.injEq] at h
+      rw [← h.1, he] at hexc
+      cases hexc
+    | none =>
+      rw [he] at h
+      simp only [Option.isSome_none, Bool.false_eq_true, if_false] at h
+      cases ho : (procStep doRx doTx s st).2.2.2 with
+      | true => rw [ho] at h; simp at h
+      | false =>
+        rw [ho] at h
+        simp only [Bool.false_eq_true, if_false] at h
+        obtain ⟨e1, hbody, r1, L1⟩ := outer_body hM env s doRx doTx true tmo st hR hL ho he
+        have hcond := eval_var M env _ _ hL.run
+        cases hrun : (procStep doRx doTx s st).2.2.1 with
+        | false =>
+          rw [hrun] at h L1
+          simp only [Bool.false_eq_true, if_false, Prod.mk.injEq] at h
+          obtain ⟨h1, h2, -⟩ := h
+          subst h1 h2
+          refine ⟨e1, ?_, r1, L1⟩
+          intro n hn
+          simp only [pyLoopFuel, hrun, Bool.false_eq_true, if_false] at hn
+          obtain ⟨k, rfl⟩ : ∃ k, n = k + 2 := ⟨n - 2, by omega⟩
+          rw [w_true _ _ _ _ _ _ hcond rfl, hbody (k + 1) (by omega)]
+          simp only
+          rw [w_false _ _ _ _ _ _ (eval_var M e1 _ _ L1.run) rfl]
+        | true =>
+          rw [hrun] at h L1
+          simp only [if_true] at h
+          obtain ⟨env', hloop, r', L'⟩ := process_loop_agrees hM f e1 _ doRx doTx tmo _ s' st' r1 L1 h hexc
+          refine ⟨env', ?_, r', L'⟩
+          intro n hn
+          simp only [pyLoopFuel, hrun, if_true] at hn
+          obtain ⟨k, rfl⟩ : ∃ k, n = k + 1 := ⟨n - 1, by omega⟩
+          rw [w_true _ _ _ _ _ _ hcond rfl, hbody k (by omega)]
+          simp only
+          exact hloop k (by omega)
+
+/-! ## 6. the whole function -/
+
+theorem b_ret (n : Nat) (M : Meths) (env : Env) (e : PExpr) (v : PV) (rest : PBlock) (he : eval M env e = .ok v) :
+    exec2B (n + 2) M env (.cons (.ret e) rest) = .ok (.ret v env) := by
+  rw [exec2B_cons, exec2S_simple _ _ _ _ rfl]
+  unfold simple2
+  simp only [execStmt, he, ok_bind]
+  rfl
+
+/-- `return self.ProcessStats(received=msg_received, ...)` -/
+theorem eval_retStats (hM : ProcessCallees M R msgPV) (env : Env) (doRx doTx run : Bool) (tmo : PV) (st : Stats)
+    (hL : Loc env doRx doTx tmo run st) :
+    eval M env (.call "self.ProcessStats#received#received_processed#sent#frame_received"
+      (.cons (.var "msg_received") (.cons (.var "msg_received_processed") (.cons (.var "msg_sent") (.cons (.var "nb_frame_received") .nil))))) =
+      .ok (encodeStats st) := by
+  simp only [eval, evalArgs, hL.received, hL.processed, hL.sent, hL.frames, ok_bind,
+    evalBuiltin_none "self.ProcessStats#received#received_processed#sent#frame_received" _ (by decide), hM.stats]
+
+/-- the five assignments before the outer loop -/
+theorem process_init (hM : ProcessCallees M R msgPV) (env : Env) (s : State) (doRx doTx : Bool) (tmo : PV)
+    (hR : R env s) (hrx : env "do_rx" = some (pbool doRx)) (htx : env "do_tx" = some (pbool doTx)) (htmo : env "rx_timeout" = some tmo) :
+    ∃ env5, (∀ j, exec2B (j + 8) M env Src.TransportLayerLogic_process =
+        exec2B (j + 3) M env5 (.cons (.while_ (.var "run_process") outerBody) (.cons retStats .nil))) ∧
+      R env5 s ∧ Loc env5 doRx doTx tmo true {} := by
+  refine ⟨((((env.set "run_process" (pbool true)).set "msg_received" (pint 0)).set "msg_received_processed" (pint 0)).set
+    "msg_sent" (pint 0)).set "nb_frame_received" (pint 0), ?_, ?_, ?_⟩
+  · intro j
+    rw [process_src, b_assign _ _ _ _ _ _ _ (by simp [eval] : eval M env .tt = .ok (pbool true)),
+      b_assign _ _ _ _ _ _ _ (by simp [eval] : eval M _ (.int 0) = .ok (pint 0)),
+      b_assign _ _ _ _ _ _ _ (by simp [eval] : eval M _ (.int 0) = .ok (pint 0)),
+      b_assign _ _ _ _ _ _ _ (by simp [eval] : eval M _ (.int 0) = .ok (pint 0)),
+      b_assign _ _ _ _ _ _ _ (by simp [eval] : eval M _ (.int 0) = .ok (pint 0))]
+  · exact hM.R_set _ s _ _ (by decide) (hM.R_set _ s _ _ (by decide) (hM.R_set _ s _ _ (by decide)
+      (hM.R_set _ s _ _ (by decide) (hM.R_set _ s _ _ (by decide) hR))))
+  · constructor <;> simp [set_get, hrx, htx, htmo]
+
+/-- interpreter fuel that is enough for the whole call, along the model's run -/
+def processPyFuel (s : State) (doRx doTx : Bool) : Nat := pyLoopFuel s.processFuel doRx doTx s {} + 8
+
+/-- **`process(rx_timeout, do_rx, do_tx)` = `State.process`**, relative to its callees: if the model's run neither runs out of fuel nor ends
+    with an exception, then for every interpreter fuel `n ≥ processPyFuel s doRx doTx` the interpreted source returns the `ProcessStats` of
+    the model's four counters, in an environment that shows the model's final state. -/
+theorem process_agrees (hM : ProcessCallees M R msgPV) (env : Env) (s : State) (doRx doTx : Bool) (tmo : PV) (s' : State) (st' : Stats)
+    (hR : R env s) (hrx : env "do_rx" = some (pbool doRx)) (htx : env "do_tx" = some (pbool doTx)) (htmo : env "rx_timeout" = some tmo)
+    (h : s.process doRx doTx = (s', st', false)) (hexc : s'.exc = none) :
+    ∃ env', (∀ n, processPyFuel s doRx doTx ≤ n → run2 n M env Src.TransportLayerLogic_process = .ok (.ret (encodeStats st') env')) ∧
+      R env' s' := by
+  obtain ⟨e5, hinit, r5, L5⟩ := process_init hM env s doRx doTx tmo hR hrx htx htmo
+  obtain ⟨e6, hloop, r6, L6⟩ := process_loop_agrees hM s.processFuel e5 s doRx doTx tmo {} s' st' r5 L5 h hexc
+  refine ⟨e6, ?_, r6⟩
+  intro n hn
+  obtain ⟨j, rfl⟩ : ∃ j, n = j + 8 := ⟨n - 8, by unfold processPyFuel at hn; omega⟩
+  unfold processPyFuel at hn
+  have hj : 1 ≤ j := by
+    have : 1 ≤ pyLoopFuel s.processFuel doRx doTx s {} := by
+      cases s.processFuel <;> simp only [pyLoopFuel] <;> omega
+    omega
+  obtain ⟨i, rfl⟩ : ∃ i, j = i + 1 := ⟨j - 1, by omega⟩
+  unfold run2
+  rw [hinit, b_stmt_next _ _ _ e6 _ _ (hloop (i + 1 + 2) (by omega)), retStats, b_ret _ _ _ _ _ _ (eval_retStats hM e6 _ _ _ _ _ L6)]
+
+/-! ## 7. exceptions: `_process_tx` raises, `process` propagates
+
+  The model records an exception in `exc` and every caller stops (`txLoop`, `processLoop` test `exc.isSome`); in Python the exception
+  propagates out of `process` (no handler in its text).  Presented here as the callee raising (`ProcessCallees.process_tx_raises`).
+  What cannot be said with `Meths.proc : ... → Except PErr Env`: the state of the object AT the raise point (an error carries no environment),
+  so the environment of `Out.raised` is the one before the call of `_process_tx`. -/
+
+/-- one pass through the body of the tx loop, `_process_tx` raising -/
+theorem tx_body_raises (hM : ProcessCallees M R msgPV) (env : Env) (s : State) (e : PyExc)
+    (hR : R env s) (h0 : s.exc = none) (he : s.processTx.1.exc = some e) :
+    ∀ n, 12 ≤ n → exec2B n M env txBody = .ok (.raised e.name (env.set "first_loop" (pbool false))) := by
+  have hR0 := hM.R_set env s "first_loop" (pbool false) (by decide) hR
+  have hp := hM.process_tx_raises _ s e hR0 h0 he
+  intro n hn
+  obtain ⟨j, rfl⟩ : ∃ j, n = j + 12 := ⟨n - 12, by omega⟩
+  rw [txBody, b_assign _ _ _ _ _ _ _ (by simp [eval] : eval M env .ff = .ok (pbool false)),
+    b_raise _ _ _ _ _ e rfl (proc0_err M _ _ _ (by decide) hp)]
+
+/-- **the inner tx loop when the model ends with an exception**: the `while` raises it -/
+theorem tx_loop_raises (hM : ProcessCallees M R msgPV) : ∀ (f : Nat) (env : Env) (s : State) (doRx doTx run : Bool) (tmo : PV) (st : Stats)
+    (mv : PV) (fl : Bool) (s' : State) (cnt' : Nat) (run' oof : Bool) (e : PyExc),
+    R env s → Loc env doRx doTx tmo run st → env "msg" = some mv → env "first_loop" = some (pbool fl) → ((mv != pnone) || fl) = true →
+    s.exc = none → State.txLoop f s st.sent = (s', cnt', run', oof) → s'.exc = some e →
+    ∃ env1, ∀ n, f + 13 ≤ n → exec2S n M env (.while_ loopCond txBody) = .ok (.raised e.name env1)
+  | 0, env, s, doRx, doTx, run, tmo, st, mv, fl, s', cnt', run', oof, e, _, _, _, _, _, h0, h, hexc => by
+    simp only [State.txLoop, Prod.mk.injEq] at h
+    rw [← h.1, h0] at hexc
+    cases hexc
+  | f + 1, env, s, doRx, doTx, run, tmo, st, mv, fl, s', cnt', run', oof, e, hR, hL, hm, hf, hc, h0, h, hexc => by
+    rcases hp : s.processTx with ⟨s1, out, imm⟩
+    rw [txLoop_succ f s s1 st.sent out imm hp] at h
+    have hcond := eval_loopCond M env mv fl hm hf
+    cases he : s1.exc with
+    | some e1 =>
+      rw [he] at h
+      simp only [Option.isSome_some, if_true, Prod.mk.injEq] at h
+      rw [← h.1, he] at hexc
+      cases hexc
+      have hbody := tx_body_raises hM env s e hR h0 (by rw [hp]; exact he)
+      refine ⟨env.set "first_loop" (pbool false), ?_⟩
+      intro n hn
+      obtain ⟨k, rfl⟩ : ∃ k, n = k + 1 := ⟨n - 1, by omega⟩
+      rw [w_true _ _ _ _ _ _ hcond (by rw [hc]; rfl), hbody k (by omega)]
+    | none =>
+      rw [he] at h
+      simp only [Option.isSome_none, Bool.false_eq_true, if_false] at h
+      obtain ⟨envF, hbody, rF, LF, mF, fF⟩ := tx_body hM env s s1 out imm doRx doTx run tmo st hR hL hp he
+      have hemit : (match (generalizing := false) out with | some m => s1.emit (.tx s1.now m) | none => s1).exc = none := by
+        cases out <;> exact he
+      cases imm with
+      | true =>
+        simp only [if_true, Prod.mk.injEq] at h
+        rw [← h.1, hemit] at hexc
+        cases hexc
+      | false =>
+        simp only [Bool.false_eq_true, if_false] at h
+        cases out with
+        | none =>
+          simp only [Option.isSome_none, Bool.false_eq_true, if_false, Prod.mk.injEq] at h
+          rw [← h.1, he] at hexc
+          cases hexc
+        | some m =>
+          simp only [Option.isSome_some, if_true] at h
+          obtain ⟨env1, hrun⟩ := tx_loop_raises hM f envF _ doRx doTx (run || false) tmo _ _ _ s' cnt' run' oof e rF LF mF fF
+            (by simp [optMsgPV, msgPV_bne hM]) hemit h hexc
+          refine ⟨env1, ?_⟩
+          intro n hn
+          obtain ⟨k, rfl⟩ : ∃ k, n = k + 1 := ⟨n - 1, by omega⟩
+          rw [w_true _ _ _ _ _ _ hcond (by rw [hc]; rfl), hbody k (by omega)]
+          simp only [Bool.false_eq_true, if_false]
+          exact hrun k (by omega)
+
+/-- `start_with_tx = False; self.rate_limiter.update(); if do_tx: ...` when the model's tx half ends with an exception -/
+theorem outer_tail5_raises (hM : ProcessCallees M R msgPV) (env : Env) (s : State) (doRx doTx run : Bool) (tmo : PV) (st : Stats) (e : PyExc)
+    (hR : R env s) (hL : Loc env doRx doTx tmo run st) (h0 : s.exc = none)
+    (hexc : (afterTx doTx (rlUpdated s) st).1.exc = some e) :
+    ∃ env1, ∀ j, (rlUpdated s).txFuel ≤ j → exec2B (j + 25) M env outerTail5 = .ok (.raised e.name env1) := by
+  have r1 := hM.R_set env s "start_with_tx" (pbool false) (by decide) hR
+  have L1 : Loc (env.set "start_with_tx" (pbool false)) doRx doTx tmo run st := hL.set_other _ _ (by decide)
+  obtain ⟨e2, p2, r2, k2⟩ := hM.rl_update _ s r1
+  have L2 : Loc e2 doRx doTx tmo run st := L1.kept k2 (by simp)
+  have head : ∀ j, exec2B (j + 25) M env outerTail5 =
+      exec2B (j + 23) M e2 (.cons (.ite (.var "do_tx") txPart .nil) outerTail8) := by
+    intro j
+    rw [outerTail5, b_assign _ _ _ _ _ _ _ (by simp [eval] : eval M env .ff = .ok (pbool false)),
+      b_next _ _ _ e2 _ _ rfl (proc0 M _ e2 _ (by decide) p2)]
+  cases doTx with
+  | false =>
+    simp only [afterTx, Bool.false_eq_true, if_false] at hexc
+    have : (rlUpdated s).exc = s.exc := rfl
+    rw [this, h0] at hexc
+    cases hexc
+  | true =>
+    rcases hr : State.txLoop (rlUpdated s).txFuel (rlUpdated s) st.sent with ⟨s', cnt', run', oof⟩
+    simp only [afterTx, if_true, hr] at hexc
+    have r3 := hM.R_set e2 _ "first_loop" (pbool true) (by decide) r2
+    have r4 := hM.R_set _ _ "msg" pnone (by decide) r3
+    have L4 : Loc ((e2.set "first_loop" (pbool true)).set "msg" pnone) doRx true tmo run st :=
+      (L2.set_other _ _ (by decide)).set_other _ _ (by decide)
+    obtain ⟨env1, hloop⟩ := tx_loop_raises hM (rlUpdated s).txFuel _ (rlUpdated s) doRx true run tmo st pnone true s' cnt' run' oof e
+      r4 L4 (by simp [set_get]) (by simp [set_get]) (by simp) h0 hr hexc
+    refine ⟨env1, ?_⟩
+    intro j hj
+    rw [head, b_ite_true _ _ _ _ _ _ _ _ (eval_var M _ _ _ L2.doTx) rfl, txPart,
+      b_assign _ _ _ _ _ _ _ (by simp [eval] : eval M e2 .tt = .ok (pbool true)),
+      b_assign _ _ _ _ _ _ _ (by simp [eval] : eval M _ .none = .ok pnone),
+      b_stmt_raised _ _ _ env1 _ _ _ (hloop (j + 18) (by omega))]
+
+theorem afterRx_exc (doRx doTx : Bool) (s : State) (st : Stats) : (afterRx doRx doTx s st).1.exc = s.exc := by
+  unfold afterRx
+  split
+  · exact rxLoop_exc doTx s.inbox s st
+  · rfl
+
+/-- one pass through the outer body when the model's iteration ends with an exception -/
+theorem outer_body_raises (hM : ProcessCallees M R msgPV) (env : Env) (s : State) (doRx doTx run : Bool) (tmo : PV) (st : Stats) (e : PyExc)
+    (hR : R env s) (hL : Loc env doRx doTx tmo run st) (h0 : s.exc = none) (hexc : (procStep doRx doTx s st).1.exc = some e) :
+    ∃ env1, ∀ n, iterFuel doRx doTx s st ≤ n → exec2B n M env outerBody = .ok (.raised e.name env1) := by
+  obtain ⟨e3, h3, r3, L3, m3, sw3⟩ := outer_head hM env s doRx doTx run tmo st hR hL
+  obtain ⟨e4, h4, r4, L4⟩ := outer_rx hM e3 s doRx doTx _ tmo st r3 L3 m3 sw3
+  obtain ⟨env1, h5⟩ := outer_tail5_raises hM e4 _ doRx doTx _ tmo _ e r4 L4 ((afterRx_exc doRx doTx s st).trans h0) hexc
+  refine ⟨env1, ?_⟩
+  intro n hn
+  obtain ⟨j, rfl⟩ : ∃ j, n = j + 30 := ⟨n - 30, by unfold iterFuel at hn; omega⟩
+  unfold iterFuel at hn
+  rw [h3, h4 j (by omega), h5 j (by omega)]
+
+/-- **the outer loop when the model ends with an exception**: the `while` raises it -/
+theorem process_loop_raises (hM : ProcessCallees M R msgPV) : ∀ (f : Nat) (env : Env) (s : State) (doRx doTx : Bool) (tmo : PV) (st : Stats)
+    (e : PyExc),
+    R env s → Loc env doRx doTx tmo true st → s.exc = none → (State.processLoop f doRx doTx s st).1.exc = some e →
+    ∃ env1, ∀ n, pyLoopFuel f doRx doTx s st ≤ n → exec2S n M env (.while_ (.var "run_process") outerBody) = .ok (.raised e.name env1)
+  | 0, env, s, doRx, doTx, tmo, st, e, _, _, h0, h => by
+    simp only [State.processLoop] at h
+    rw [h0] at h
+    cases h
+  | f + 1, env, s, doRx, doTx, tmo, st, e, hR, hL, h0, h => by
+    rw [processLoop_succ] at h
+    have hcond := eval_var M env _ _ hL.run
+    cases he : (procStep doRx doTx s st).1.exc with
+    | some e1 =>
+      rw [he] at h
+      simp only [Option.isSome_some, if_true] at h
+      rw [he] at h
+      cases h
+      obtain ⟨env1, hbody⟩ := outer_body_raises hM env s doRx doTx true tmo st e hR hL h0 he
+      refine ⟨env1, ?_⟩
+      intro n hn
+      simp only [pyLoopFuel] at hn
+      obtain ⟨k, rfl⟩ : ∃ k, n = k + 1 := ⟨n - 1, by omega⟩
+      rw [w_true _ _ _ _ _ _ hcond rfl, hbody k (by omega)]
+    | none =>
+      rw [he] at h
+      simp only [Option.isSome_none, Bool.false_eq_true, if_false] at h
+      cases ho : (procStep doRx doTx s st).2.2.2 with
+      | true => rw [ho] at h; simp only [if_true] at h; rw [he] at h; cases h
+      | false =>
+        rw [ho] at h
+        simp only [Bool.false_eq_true, if_false] at h
+        cases hrun : (procStep doRx doTx s st).2.2.1 with
+        | false => rw [hrun] at h; simp only [Bool.false_eq_true, if_false] at h; rw [he] at h; cases h
+        | true =>
+          rw [hrun] at h
+          simp only [if_true] at h
+          obtain ⟨e1, hbody, r1, L1⟩ := outer_body hM env s doRx doTx true tmo st hR hL ho he
+          rw [hrun] at L1
+          obtain ⟨env1, hloop⟩ := process_loop_raises hM f e1 _ doRx doTx tmo _ e r1 L1 he h
+          refine ⟨env1, ?_⟩
+          intro n hn
+          simp only [pyLoopFuel, hrun, if_true] at hn
+          obtain ⟨k, rfl⟩ : ∃ k, n = k + 1 := ⟨n - 1, by omega⟩
+          rw [w_true _ _ _ _ _ _ hcond rfl, hbody k (by omega)]
+          simp only
+          exact hloop k (by omega)
+
+/-- **`process` propagates the exception of `_process_tx`**: if the model's run ends with `exc = some e` (from a state without a pending
+    exception), then for every interpreter fuel `n ≥ processPyFuel s doRx doTx` the interpreted source raises `e`. -/
+theorem process_raises (hM : ProcessCallees M R msgPV) (env : Env) (s : State) (doRx doTx : Bool) (tmo : PV) (e : PyExc)
+    (hR : R env s) (hrx : env "do_rx" = some (pbool doRx)) (htx : env "do_tx" = some (pbool doTx)) (htmo : env "rx_timeout" = some tmo)
+    (h0 : s.exc = none) (h : (s.process doRx doTx).1.exc = some e) :
+    ∃ env1, ∀ n, processPyFuel s doRx doTx ≤ n → run2 n M env Src.TransportLayerLogic_process = .ok (.raised e.name env1) := by
+  obtain ⟨e5, hinit, r5, L5⟩ := process_init hM env s doRx doTx tmo hR hrx htx htmo
+  obtain ⟨env1, hloop⟩ := process_loop_raises hM s.processFuel e5 s doRx doTx tmo {} e r5 L5 h0 h
+  refine ⟨env1, ?_⟩
+  intro n hn
+  obtain ⟨j, rfl⟩ : ∃ j, n = j + 8 := ⟨n - 8, by unfold processPyFuel at hn; omega⟩
+  unfold processPyFuel at hn
+  unfold run2
+  rw [hinit, b_stmt_raised _ _ _ env1 _ _ _ (hloop (j + 2) (by omega))]
+
 end loops
 
+/-! ## 8. the hypotheses are satisfiable: an instance of `ProcessCallees` for EVERY initial state
+
+  The environment keeps, under the history key `#ops`, the list of the callee calls made so far (with their message arguments), as
+  scalars; it shows the state `runOps s0 ops` (the model functions applied in that order to `s0`), and `self.rx_state` / `self.tx_state`
+  of that state.  The `Meths` read the list back (the encoding is injective) and append to it. -/
+namespace ProcInst
+
+inductive Op where
+  | rxfn | check | rlUpdate | processTx | processRx (m : CanMsg) | txfn (m : CanMsg)
+
+def applyOp (s : State) : Op → State
+  | .rxfn => match s.inbox with
+      | [] => ({ s with inbox := [] } : State).emit (.rxNone s.now)
+      | (dt, m) :: rest => ({ s with inbox := rest, now := s.now + dt } : State).emit (.rx (s.now + dt) m)
+  | .check => s.checkTimeoutsRx
+  | .rlUpdate => { s with rl := s.rl.update s.cfg.rlWindowNs s.now }
+  | .processTx => s.processTx.1
+  | .processRx m => (s.processRx m).1
+  | .txfn m => s.emit (.tx s.now m)
+
+def runOps (s0 : State) (ops : List Op) : State := ops.foldl applyOp s0
+
+theorem runOps_snoc (s0 : State) (ops : List Op) (o : Op) : runOps s0 (ops ++ [o]) = applyOp (runOps s0 ops) o := by
+  simp [runOps]
+
+def scN (n : Nat) : Sc := .py (.int n)
+def scB (b : Bool) : Sc := .py (.bool b)
+
+def encMsg (m : CanMsg) : List Sc :=
+  [scN m.id, scB m.ext, scN m.dlc, scB m.fd, scB m.brs, scN m.data.length] ++ m.data.map (fun b => scN b.toNat)
+
+theorem encMsg_inj (m m' : CanMsg) (r r' : List Sc) (h : encMsg m ++ r = encMsg m' ++ r') : m = m' ∧ r = r' := by
+  simp only [encMsg, List.cons_append, List.nil_append, List.cons.injEq, scN, scB, Sc.py.injEq, PyVal.int.injEq,
+    PyVal.bool.injEq, Int.natCast_inj] at h
+  obtain ⟨h1, h2, h3, h4, h5, h6, h7⟩ := h
+  obtain ⟨hd, hr⟩ := List.append_inj h7 (by simp [h6])
+  have hdata : m.data = m'.data := by
+    refine (List.map_inj_right ?_).mp hd
+    intro a b hab
+    simp only [Sc.py.injEq, PyVal.int.injEq, Int.natCast_inj] at hab
+    exact UInt8.toNat_inj.mp hab
+  refine ⟨?_, hr⟩
+  cases m; cases m'; simp_all
+
+def encOp : Op → List Sc
+  | .rxfn => [scN 0] | .check => [scN 1] | .rlUpdate => [scN 2] | .processTx => [scN 3]
+  | .processRx m => scN 4 :: encMsg m | .txfn m => scN 5 :: encMsg m
+
+def encOps : List Op → List Sc
+  | [] => []
+  | o :: r => encOp o ++ encOps r
+
+theorem encOp_inj (o o' : Op) (r r' : List Sc) (h : encOp o ++ r = encOp o' ++ r') : o = o' ∧ r = r' := by
+  cases o <;> cases o' <;>
+    simp only [encOp, List.cons_append, List.nil_append, List.cons.injEq, scN, Sc.py.injEq, PyVal.int.injEq] at h <;>
+    first
+    | exact ⟨rfl, h.2⟩
+    | (exfalso; have := h.1; omega)
+    | (obtain ⟨h1, h2⟩ := encMsg_inj _ _ _ _ h.2; exact ⟨by rw [h1], h2⟩)
+
+theorem encOps_inj : ∀ a b : List Op, encOps a = encOps b → a = b
+  | [], [], _ => rfl
+  | [], o :: r, h => by cases o <;> simp [encOps, encOp] at h
+  | o :: r, [], h => by cases o <;> simp [encOps, encOp] at h
+  | o :: r, o' :: r', h => by
+    obtain ⟨h1, h2⟩ := encOp_inj o o' _ _ h
+    rw [h1, encOps_inj r r' h2]
+
+/-- a `CanMessage` object: its fields as a list of scalars -/
+def msgPV (m : CanMsg) : PV := .list (encMsg m)
+
+theorem msgPV_inj (m m' : CanMsg) (h : msgPV m = msgPV m') : m = m' := by
+  simp only [msgPV, PV.list.injEq] at h
+  exact (encMsg_inj m m' [] [] (by simpa using h)).1
+
+open Classical in
+noncomputable def msgOf (v : PV) : Option CanMsg := if h : ∃ m, msgPV m = v then some (Classical.choose h) else none
+
+theorem msgOf_msgPV (m : CanMsg) : msgOf (msgPV m) = some m := by
+  have h : ∃ m', msgPV m' = msgPV m := ⟨m, rfl⟩
+  simp only [msgOf, h, dite_true, Option.some.injEq]
+  exact msgPV_inj _ _ (Classical.choose_spec h)
+
+open Classical in
+noncomputable def opsOf (env : Env) : Option (List Op) :=
+  if h : ∃ ops, env "#ops" = some (.list (encOps ops)) then some (Classical.choose h) else none
+
+theorem opsOf_eq (env : Env) (ops : List Op) (h : env "#ops" = some (.list (encOps ops))) : opsOf env = some ops := by
+  have h' : ∃ ops, env "#ops" = some (.list (encOps ops)) := ⟨ops, h⟩
+  simp only [opsOf, h', dite_true, Option.some.injEq]
+  have := (Classical.choose_spec h').symm.trans h
+  simp only [Option.some.injEq, PV.list.injEq] at this
+  exact encOps_inj _ _ this
+
+/-- the environment after a callee: the call is appended to `#ops`, the two FSM states are those of the new state -/
+def envAfter (env : Env) (ops : List Op) (s : State) : Env :=
+  ((env.set "#ops" (.list (encOps ops))).set "self.rx_state" (pRxStPV s.rxState)).set "self.tx_state" (pTxStPV s.txState)
+
+/-- a callee that is the model function `applyOp · o`; `k` binds what the call returns -/
+noncomputable def step (s0 : State) (env : Env) (o : Op) (k : State → Env → Except PErr Env) : Except PErr Env :=
+  match opsOf env with
+  | some ops => k (runOps s0 ops) (envAfter env (ops ++ [o]) (applyOp (runOps s0 ops) o))
+  | none => .error (.unsupported "the environment shows no state")
+
+noncomputable def withState (s0 : State) (env : Env) (k : State → Except PErr PV) : Except PErr PV :=
+  match opsOf env with
+  | some ops => k (runOps s0 ops)
+  | none => .error (.unsupported "the environment shows no state")
+
+noncomputable def instM (s0 : State) : Meths where
+  fn := fun name args env =>
+    match name, args with
+    | "self.tx_queue.empty", [] => withState s0 env fun s => .ok (pbool s.txQueue.isEmpty)
+    | "self.logger.isEnabledFor", [_] => .ok (pbool false)
+    | "self.address.is_for_me", [v] =>
+      (match msgOf v with
+       | some m => withState s0 env fun s => .ok (pbool (s.addr.rx.isForMe m))
+       | none => .error (.exc .TypeError))
+    | "self.ProcessStats#received#received_processed#sent#frame_received", [.sc a, .sc b, .sc c, .sc d] => .ok (.list [a, b, c, d])
+    | n, _ => .error (.unsupported ("call " ++ n))
+  proc := fun name args env =>
+    match name, args with
+    | "msg:=self.rxfn", [_] =>
+      step s0 env .rxfn fun s e => .ok (e.set "msg" (match s.inbox with | [] => pnone | (_, m) :: _ => msgPV m))
+    | "self._check_timeouts_rx", [] => step s0 env .check fun _ e => .ok e
+    | "rx_result:=self._process_rx", [v] =>
+      (match msgOf v with
+       | some m => step s0 env (.processRx m) fun s e =>
+          .ok ((e.set "rx_result.immediate_tx_required" (pbool (s.processRx m).2.1)).set "rx_result.frame_received"
+            (pbool (s.processRx m).2.2))
+       | none => .error (.exc .TypeError))
+    | "self.rate_limiter.update", [] => step s0 env .rlUpdate fun _ e => .ok e
+    | "tx_result:=self._process_tx", [] =>
+      step s0 env .processTx fun s e =>
+        (match s.processTx.1.exc with
+         | some ex => .error (.exc ex)
+         | none => .ok ((e.set "tx_result.msg" (optMsgPV msgPV s.processTx.2.1)).set "tx_result.immediate_rx_required"
+            (pbool s.processTx.2.2)))
+    | "self.txfn", [v] =>
+      (match msgOf v with
+       | some m => step s0 env (.txfn m) fun _ e => .ok e
+       | none => .error (.exc .TypeError))
+    | n, _ => .error (.unsupported ("call " ++ n))
+
+/-- "`env` shows `s`": `s` is `s0` after the calls listed under `#ops` -/
+def Shows (s0 : State) (env : Env) (s : State) : Prop :=
+  ∃ ops, env "#ops" = some (.list (encOps ops)) ∧ s = runOps s0 ops ∧ Reads env s
+
+theorem kept_refl (ex : List String) (env : Env) : Kept ex env env := fun _ _ _ => rfl
+
+theorem kept_set {ex : List String} {env env' : Env} (h : Kept ex env env') (k : String) (v : PV)
+    (hk : k ∉ procLocals ∨ k ∈ ex) : Kept ex env (env'.set k v) := by
+  intro k' hk' hne
+  rw [set_get]
+  split
+  · next heq =>
+    subst heq
+    rcases hk with hk | hk
+    · exact absurd hk' hk
+    · exact absurd hk hne
+  · exact h k' hk' hne
+
+theorem kept_envAfter (ex : List String) (env : Env) (ops : List Op) (s : State) : Kept ex env (envAfter env ops s) :=
+  kept_set (kept_set (kept_set (kept_refl ex env) "#ops" _ (.inl (by decide))) "self.rx_state" _ (.inl (by decide)))
+    "self.tx_state" _ (.inl (by decide))
+
+/-- the keys `Reads` talks about -/
+def readKeys : List String :=
+  ["self.rx_state", "self.tx_state", "self.RxState.IDLE", "self.TxState.IDLE", "self.TxState.TRANSMIT_CF",
+   "self.TxState.TRANSMIT_SF_STANDBY", "self.TxState.TRANSMIT_FF_STANDBY", "logging.DEBUG"]
+
+theorem reads_set_other {env : Env} {s : State} (h : Reads env s) (k : String) (v : PV) (hk : k ∉ readKeys) : Reads (env.set k v) s := by
+  simp only [readKeys, List.mem_cons, List.not_mem_nil, or_false, not_or] at hk
+  obtain ⟨h1, h2, h3, h4, h5, h6, h7, h8⟩ := hk
+  constructor
+  · rw [set_get, if_neg (Ne.symm h1)]; exact h.rxState
+  · rw [set_get, if_neg (Ne.symm h2)]; exact h.txState
+  · rw [set_get, if_neg (Ne.symm h3)]; exact h.rxIdle
+  · rw [set_get, if_neg (Ne.symm h4)]; exact h.txIdle
+  · rw [set_get, if_neg (Ne.symm h5)]; exact h.txCf
+  · rw [set_get, if_neg (Ne.symm h6)]; exact h.txSf
+  · rw [set_get, if_neg (Ne.symm h7)]; exact h.txFf
+  · rw [set_get, if_neg (Ne.symm h8)]; exact h.debug
+
+theorem reads_envAfter {env : Env} {s : State} (h : Reads env s) (ops : List Op) (s' : State) : Reads (envAfter env ops s') s' := by
+  constructor <;> simp [envAfter, set_get, h.rxIdle, h.txIdle, h.txCf, h.txSf, h.txFf, h.debug]
+
+theorem Shows.set_other {s0 : State} {env : Env} {s : State} (h : Shows s0 env s) (k : String) (v : PV) (hk1 : k ≠ "#ops")
+    (hk : k ∉ readKeys) : Shows s0 (env.set k v) s := by
+  obtain ⟨ops, h1, h2, h3⟩ := h
+  exact ⟨ops, by rw [set_get, if_neg (Ne.symm hk1)]; exact h1, h2, reads_set_other h3 k v hk⟩
+
+/-- after a callee `o`: the environment shows the model function applied to the state -/
+theorem shows_envAfter {s0 : State} {env : Env} {ops : List Op} (h3 : Reads env (runOps s0 ops)) (o : Op) :
+    Shows s0 (envAfter env (ops ++ [o]) (applyOp (runOps s0 ops) o)) (applyOp (runOps s0 ops) o) :=
+  ⟨ops ++ [o], by simp [envAfter, set_get], (runOps_snoc s0 ops o).symm, reads_envAfter h3 _ _⟩
+
+theorem step_eq (s0 : State) (env : Env) (ops : List Op) (o : Op) (k : State → Env → Except PErr Env)
+    (h : env "#ops" = some (.list (encOps ops))) :
+    step s0 env o k = k (runOps s0 ops) (envAfter env (ops ++ [o]) (applyOp (runOps s0 ops) o)) := by
+  simp only [step, opsOf_eq env ops h]
+
+theorem withState_eq (s0 : State) (env : Env) (ops : List Op) (k : State → Except PErr PV)
+    (h : env "#ops" = some (.list (encOps ops))) : withState s0 env k = k (runOps s0 ops) := by
+  simp only [withState, opsOf_eq env ops h]
+
+theorem instM_lookups (s0 : State) (env : Env) (v : PV) (a b c d : Sc) :
+    (instM s0).fn "self.tx_queue.empty" [] env = (withState s0 env fun s => .ok (pbool s.txQueue.isEmpty)) ∧
+    (instM s0).fn "self.logger.isEnabledFor" [v] env = .ok (pbool false) ∧
+    (instM s0).fn "self.address.is_for_me" [v] env =
+      (match msgOf v with
+       | some m => withState s0 env fun s => .ok (pbool (s.addr.rx.isForMe m))
+       | none => .error (.exc .TypeError)) ∧
+    (instM s0).fn "self.ProcessStats#received#received_processed#sent#frame_received" [.sc a, .sc b, .sc c, .sc d] env =
+      .ok (.list [a, b, c, d]) ∧
+    (instM s0).proc "msg:=self.rxfn" [v] env =
+      (step s0 env .rxfn fun s e => .ok (e.set "msg" (match s.inbox with | [] => pnone | (_, m) :: _ => msgPV m))) ∧
+    (instM s0).proc "self._check_timeouts_rx" [] env = (step s0 env .check fun _ e => .ok e) ∧
+    (instM s0).proc "rx_result:=self._process_rx" [v] env =
+      (match msgOf v with
+       | some m => step s0 env (.processRx m) fun s e =>
+          .ok ((e.set "rx_result.immediate_tx_required" (pbool (s.processRx m).2.1)).set "rx_result.frame_received"
+            (pbool (s.processRx m).2.2))
+       | none => .error (.exc .TypeError)) ∧
+    (instM s0).proc "self.rate_limiter.update" [] env = (step s0 env .rlUpdate fun _ e => .ok e) ∧
+    (instM s0).proc "tx_result:=self._process_tx" [] env =
+      (step s0 env .processTx fun s e =>
+        (match s.processTx.1.exc with
+         | some ex => .error (.exc ex)
+         | none => .ok ((e.set "tx_result.msg" (optMsgPV msgPV s.processTx.2.1)).set "tx_result.immediate_rx_required"
+            (pbool s.processTx.2.2)))) ∧
+    (instM s0).proc "self.txfn" [v] env =
+      (match msgOf v with
+       | some m => step s0 env (.txfn m) fun _ e => .ok e
+       | none => .error (.exc .TypeError)) :=
+  ⟨rfl, rfl, rfl, rfl, rfl, rfl, rfl, rfl, rfl, rfl⟩
+
+/-- **the hypotheses of the agreement theorems are satisfiable**, from every initial state -/
+theorem instM_callees (s0 : State) : ProcessCallees (instM s0) (Shows s0) msgPV where
+  msg_ne := by intro m h; cases h
+  reads := by intro env s h; obtain ⟨_, _, _, h3⟩ := h; exact h3
+  R_set := by
+    intro env s k v hk h
+    simp only [procWrites, List.mem_cons, List.not_mem_nil, or_false] at hk
+    rcases hk with rfl | rfl | rfl | rfl | rfl | rfl | rfl | rfl | rfl | rfl | rfl <;>
+      exact h.set_other _ v (by decide) (by decide)
+  tx_queue_empty := by
+    intro env s h
+    obtain ⟨ops, h1, h2, _⟩ := h
+    rw [(instM_lookups s0 env pnone default default default default).1, withState_eq s0 env ops _ h1, h2]
+  log_off := by intro env v; exact (instM_lookups s0 env v default default default default).2.1
+  is_for_me := by
+    intro env s m h
+    obtain ⟨ops, h1, h2, _⟩ := h
+    rw [(instM_lookups s0 env (msgPV m) default default default default).2.2.1, msgOf_msgPV]
+    simp only
+    rw [withState_eq s0 env ops _ h1, h2]
+  stats := by
+    intro env a b c d
+    exact (instM_lookups s0 env pnone _ _ _ _).2.2.2.1
+  rxfn_some := by
+    intro env s v dt m rest h hin
+    obtain ⟨ops, h1, h2, h3⟩ := h
+    subst h2
+    have hap : applyOp (runOps s0 ops) .rxfn =
+        ({ runOps s0 ops with inbox := rest, now := (runOps s0 ops).now + dt } : State).emit (.rx ((runOps s0 ops).now + dt) m) := by
+      simp only [applyOp, hin]
+    refine ⟨(envAfter env (ops ++ [.rxfn]) (applyOp (runOps s0 ops) .rxfn)).set "msg" (msgPV m), ?_, ?_, by simp [set_get], ?_⟩
+    · rw [(instM_lookups s0 env v default default default default).2.2.2.2.1, step_eq s0 env ops _ _ h1]
+      simp only [hin]
+    · rw [← hap]
+      exact (shows_envAfter h3 .rxfn).set_other "msg" _ (by decide) (by decide)
+    · exact kept_set (kept_envAfter _ env _ _) "msg" _ (.inr (by simp))
+  rxfn_none := by
+    intro env s v h hin
+    obtain ⟨ops, h1, h2, h3⟩ := h
+    subst h2
+    have hap : applyOp (runOps s0 ops) .rxfn = ({ runOps s0 ops with inbox := [] } : State).emit (.rxNone (runOps s0 ops).now) := by
+      simp only [applyOp, hin]
+    refine ⟨(envAfter env (ops ++ [.rxfn]) (applyOp (runOps s0 ops) .rxfn)).set "msg" pnone, ?_, ?_, by simp [set_get], ?_⟩
+    · rw [(instM_lookups s0 env v default default default default).2.2.2.2.1, step_eq s0 env ops _ _ h1]
+      simp only [hin]
+    · rw [← hap]
+      exact (shows_envAfter h3 .rxfn).set_other "msg" _ (by decide) (by decide)
+    · exact kept_set (kept_envAfter _ env _ _) "msg" _ (.inr (by simp))
+  check_timeouts_rx := by
+    intro env s h
+    obtain ⟨ops, h1, h2, h3⟩ := h
+    subst h2
+    refine ⟨envAfter env (ops ++ [.check]) (applyOp (runOps s0 ops) .check), ?_, shows_envAfter h3 .check, kept_envAfter _ env _ _⟩
+    rw [(instM_lookups s0 env pnone default default default default).2.2.2.2.2.1, step_eq s0 env ops _ _ h1]
+  process_rx := by
+    intro env s m h
+    obtain ⟨ops, h1, h2, h3⟩ := h
+    subst h2
+    refine ⟨((envAfter env (ops ++ [.processRx m]) (applyOp (runOps s0 ops) (.processRx m))).set "rx_result.immediate_tx_required"
+      (pbool ((runOps s0 ops).processRx m).2.1)).set "rx_result.frame_received" (pbool ((runOps s0 ops).processRx m).2.2),
+      ?_, ?_, by simp [set_get], by simp [set_get], ?_⟩
+    · rw [(instM_lookups s0 env (msgPV m) default default default default).2.2.2.2.2.2.1, msgOf_msgPV]
+      simp only
+      rw [step_eq s0 env ops _ _ h1]
+    · exact ((shows_envAfter h3 (.processRx m)).set_other _ _ (by decide) (by decide)).set_other _ _ (by decide) (by decide)
+    · exact kept_set (kept_set (kept_envAfter _ env _ _) _ _ (.inl (by decide))) _ _ (.inl (by decide))
+  rl_update := by
+    intro env s h
+    obtain ⟨ops, h1, h2, h3⟩ := h
+    subst h2
+    refine ⟨envAfter env (ops ++ [.rlUpdate]) (applyOp (runOps s0 ops) .rlUpdate), ?_, shows_envAfter h3 .rlUpdate,
+      kept_envAfter _ env _ _⟩
+    rw [(instM_lookups s0 env pnone default default default default).2.2.2.2.2.2.2.1, step_eq s0 env ops _ _ h1]
+  process_tx := by
+    intro env s h hexc
+    obtain ⟨ops, h1, h2, h3⟩ := h
+    subst h2
+    refine ⟨((envAfter env (ops ++ [.processTx]) (applyOp (runOps s0 ops) .processTx)).set "tx_result.msg"
+      (optMsgPV msgPV (runOps s0 ops).processTx.2.1)).set "tx_result.immediate_rx_required" (pbool (runOps s0 ops).processTx.2.2),
+      ?_, ?_, by simp [set_get], by simp [set_get], ?_⟩
+    · rw [(instM_lookups s0 env pnone default default default default).2.2.2.2.2.2.2.2.1, step_eq s0 env ops _ _ h1]
+      simp only [hexc]
+    · exact ((shows_envAfter h3 .processTx).set_other _ _ (by decide) (by decide)).set_other _ _ (by decide) (by decide)
+    · exact kept_set (kept_set (kept_envAfter _ env _ _) _ _ (.inl (by decide))) _ _ (.inr (by simp))
+  process_tx_raises := by
+    intro env s e h _ hexc
+    obtain ⟨ops, h1, h2, h3⟩ := h
+    subst h2
+    rw [(instM_lookups s0 env pnone default default default default).2.2.2.2.2.2.2.2.1, step_eq s0 env ops _ _ h1]
+    simp only [hexc]
+  txfn := by
+    intro env s m h
+    obtain ⟨ops, h1, h2, h3⟩ := h
+    subst h2
+    refine ⟨envAfter env (ops ++ [.txfn m]) (applyOp (runOps s0 ops) (.txfn m)), ?_, shows_envAfter h3 (.txfn m),
+      kept_envAfter _ env _ _⟩
+    rw [(instM_lookups s0 env (msgPV m) default default default default).2.2.2.2.2.2.2.2.2, msgOf_msgPV]
+    simp only
+    rw [step_eq s0 env ops _ _ h1]
+
+/-- an environment that shows `s0` (no callee called yet) and binds the three parameters -/
+def env0 (s0 : State) (doRx doTx : Bool) (tmo : PV) : Env := fun k =>
+  match k with
+  | "#ops" => some (.list [])
+  | "self.rx_state" => some (pRxStPV s0.rxState)
+  | "self.tx_state" => some (pTxStPV s0.txState)
+  | "self.RxState.IDLE" => some (pRxStPV .idle)
+  | "self.TxState.IDLE" => some (pTxStPV .idle)
+  | "self.TxState.TRANSMIT_CF" => some (pTxStPV .transmitCf)
+  | "self.TxState.TRANSMIT_SF_STANDBY" => some (pTxStPV .sfStandby)
+  | "self.TxState.TRANSMIT_FF_STANDBY" => some (pTxStPV .ffStandby)
+  | "logging.DEBUG" => some (pint 10)
+  | "do_rx" => some (pbool doRx)
+  | "do_tx" => some (pbool doTx)
+  | "rx_timeout" => some tmo
+  | _ => none
+
+theorem env0_shows (s0 : State) (doRx doTx : Bool) (tmo : PV) : Shows s0 (env0 s0 doRx doTx tmo) s0 :=
+  ⟨[], rfl, rfl, ⟨rfl, rfl, rfl, rfl, rfl, rfl, rfl, rfl⟩⟩
+
+/-- `process_agrees` with the callees of this section: for EVERY initial state and both flags, a run of the model that neither runs out of
+    fuel nor raises is a run of the interpreted source -/
+theorem process_agrees_inst (s0 : State) (doRx doTx : Bool) (tmo : PV) (s' : State) (st' : Stats)
+    (h : s0.process doRx doTx = (s', st', false)) (hexc : s'.exc = none) :
+    ∃ env', (∀ n, processPyFuel s0 doRx doTx ≤ n →
+        run2 n (instM s0) (env0 s0 doRx doTx tmo) Src.TransportLayerLogic_process = .ok (.ret (encodeStats st') env')) ∧
+      Shows s0 env' s' :=
+  process_agrees (instM_callees s0) _ s0 doRx doTx tmo s' st' (env0_shows s0 doRx doTx tmo) rfl rfl rfl h hexc
+
+/-- `process_raises` with the callees of this section -/
+theorem process_raises_inst (s0 : State) (doRx doTx : Bool) (tmo : PV) (e : PyExc)
+    (h0 : s0.exc = none) (h : (s0.process doRx doTx).1.exc = some e) :
+    ∃ env1, ∀ n, processPyFuel s0 doRx doTx ≤ n →
+      run2 n (instM s0) (env0 s0 doRx doTx tmo) Src.TransportLayerLogic_process = .ok (.raised e.name env1) :=
+  process_raises (instM_callees s0) _ s0 doRx doTx tmo e (env0_shows s0 doRx doTx tmo) rfl rfl rfl h0 h
+
+/-! ### two concrete runs -/
+
+def exHalf : Half :=
+  { mode := .n11, txid := some 0x123, rxid := some 0x456, ta := none, sa := none, ae := none,
+    physId := 0x123, funcId := 0x123, rxOnly := false, txOnly := false }
+
+/-- a 10-byte payload queued; on the bus: a Single Frame for us (after 5 ns), a frame for somebody else (after 3 ns) -/
+def exS : State :=
+  { State.init {} { tx := exHalf, rx := exHalf } with
+    inbox := [(5, { id := 0x456, ext := false, data := [0x02, 0xAA, 0xBB] }), (3, { id := 0x999, ext := false, data := [0x01, 0x01] })],
+    txQueue := [{ id := 1, size := 10, src := [1, 2, 3, 4, 5, 6, 7, 8, 9, 10] }] }
+
+/-- the outer loop runs twice (`start_with_tx`: the First Frame goes out first; then the rx loop takes both frames and `None`): the
+    interpreted source returns `ProcessStats(received=2, received_processed=1, sent=1, frame_received=1)`, as the model does -/
+example : ∃ env', (∀ n, processPyFuel exS true true ≤ n →
+      run2 n (instM exS) (env0 exS true true (pint 0)) Src.TransportLayerLogic_process =
+        .ok (.ret (encodeStats { received := 2, processed := 1, sent := 1, frames := 1 }) env')) ∧
+    Shows exS env' (exS.process true true).1 := by
+  have h2 : (exS.process true true).2 = ({ received := 2, processed := 1, sent := 1, frames := 1 }, false) := by decide
+  have he : (exS.process true true).1.exc = none := by decide
+  exact process_agrees_inst exS true true (pint 0) _ _ (by rw [← h2]) he
+
+/-- a Flow Control was requested but its status never stored (`pendingFcStatus = none`): `_process_tx` raises `AttributeError`, and so does
+    the interpreted `process` -/
+def exR : State := { State.init {} { tx := exHalf, rx := exHalf } with pendingFc := true }
+
+example : ∃ env1, ∀ n, processPyFuel exR true true ≤ n →
+    run2 n (instM exR) (env0 exR true true (pint 0)) Src.TransportLayerLogic_process = .ok (.raised "AttributeError" env1) :=
+  process_raises_inst exR true true (pint 0) .AttributeError rfl (by decide)
+
+end ProcInst
+
 end Isotp.PyAgree
+
+#print axioms Isotp.PyAgree.tx_loop_agrees
+#print axioms Isotp.PyAgree.tx_loop_raises
+#print axioms Isotp.PyAgree.rx_loop_agrees
+#print axioms Isotp.PyAgree.outer_body
+#print axioms Isotp.PyAgree.process_loop_agrees
+#print axioms Isotp.PyAgree.process_loop_raises
+#print axioms Isotp.PyAgree.process_agrees
+#print axioms Isotp.PyAgree.process_raises
+#print axioms Isotp.PyAgree.encodeStats_injective
+#print axioms Isotp.PyAgree.ProcInst.instM_callees
+#print axioms Isotp.PyAgree.ProcInst.process_agrees_inst
+#print axioms Isotp.PyAgree.ProcInst.process_raises_inst
